@@ -1,4 +1,1538 @@
 /-
-  C15 — library graph families.  Property theorems only (filled in as proofs land).
+  C15 — every library graph family implements the generators its documentation describes.
+  Property theorems about the closed-form specification `CvModel/Families.lean` (which the check
+  compares EXACTLY with `cayleypy/graphs_lib.py` for all small parameters); proofs are in
+  `CvProofs/Families*.lean`.  Every theorem is followed by a non-vacuity example.
+  (generated from the proof files by gen_c15.py)
 -/
-import CvModel.GraphDef
+import CvProofs.Families
+import CvProofs.FamiliesCounts
+import CvProofs.FamiliesCycles
+import CvProofs.FamiliesEnum
+import CvProofs.FamiliesLookup
+import CvProofs.FamiliesMat
+import CvProofs.FamiliesMore
+import CvProofs.FamiliesOrder
+import CvProofs.FamiliesRoundtrip
+namespace Cv.C15
+open Cv.Perm Cv.GraphDef Cv.Families
+
+/-- summary: all index lists are strictly sorted, hence duplicate-free -/
+theorem index_lists_sorted (n k : Nat) :
+    (pairsLt n).Pairwise lex2 ∧ (pairsLe n).Pairwise lex2 ∧ (pairsSplit n k).Pairwise lex2 ∧
+    (pairsNe1 n).Pairwise lex2 ∧ (triplesT n).Pairwise lex3 ∧ (triplesMinFirst n).Pairwise lex3 ∧
+    (quadsI n).Pairwise lex4 := by
+  exact Cv.Families.index_lists_sorted n k
+example : pairsLt 3 = [(0,1),(0,2),(1,2)] ∧ pairsLe 2 = [(0,0),(0,1),(1,1)] ∧ pairsSplit 3 1 = [(0,1),(0,2)] ∧
+    pairsNe1 3 = [(1,2),(2,1)] ∧ triplesT 3 = [(0,1,1),(0,1,2),(0,2,2),(1,2,2)] ∧
+    triplesMinFirst 3 = [(0,1,2),(0,2,1)] ∧ quadsI 2 = [(0,1,1,2)] := by decide
+
+theorem index_lists_nodup (n k : Nat) :
+    (pairsLt n).Nodup ∧ (pairsLe n).Nodup ∧ (pairsSplit n k).Nodup ∧ (pairsNe1 n).Nodup ∧
+    (triplesT n).Nodup ∧ (triplesMinFirst n).Nodup ∧ (quadsI n).Nodup := by
+  exact Cv.Families.index_lists_nodup n k
+example : pairsLt 3 = [(0,1),(0,2),(1,2)] ∧ pairsLe 2 = [(0,0),(0,1),(1,1)] ∧ pairsSplit 3 1 = [(0,1),(0,2)] ∧
+    pairsNe1 3 = [(1,2),(2,1)] ∧ triplesT 3 = [(0,1,1),(0,1,2),(0,2,2),(1,2,2)] ∧
+    triplesMinFirst 3 = [(0,1,2),(0,2,1)] ∧ quadsI 2 = [(0,1,1,2)] := by decide
+
+theorem pancake_valid (n : Nat) (d : PermDef) (h : permFamily "pancake" [n] = some d) :
+    (∀ p ∈ d.gens, IsPermOf n p) ∧ d.central = List.range n ∧ d.names.length = d.gens.length := by
+  exact Cv.Families.pancake_valid n d h
+example : (permFamily "pancake" [4]).isSome = true := by decide
+
+theorem pancake_count (n : Nat) (d : PermDef) (h : permFamily "pancake" [n] = some d) :
+    d.gens.length = n - 1 := by
+  exact Cv.Families.pancake_count n d h
+example : (permFamily "pancake" [4]).isSome = true := by decide
+
+/-- generator number `k-2` (named `R<k-1>`) is the reversal of the prefix of length `k` -/
+theorem pancake_structure (n : Nat) (d : PermDef) (h : permFamily "pancake" [n] = some d) :
+    ∀ k, 2 ≤ k → k ≤ n →
+      d.gens[k - 2]? = some ((List.range k).reverse ++ List.range' k (n - k)) ∧
+      d.names[k - 2]? = some ("R" ++ toString (k - 1)) ∧
+      ∀ x : List Nat, x.length = n →
+        apply ((List.range k).reverse ++ List.range' k (n - k)) x = (x.take k).reverse ++ x.drop k := by
+  exact Cv.Families.pancake_structure n d h
+example : ∃ d, permFamily "pancake" [4] = some d ∧ d.gens = [[1, 0, 2, 3], [2, 1, 0, 3], [3, 2, 1, 0]] ∧
+    d.names = ["R1", "R2", "R3"] ∧
+    d.central = [0, 1, 2, 3] ∧ d.name = "pancake-4" :=
+  ⟨_, rfl, by decide, by decide, by decide, by decide⟩
+
+theorem pancake_inverse_closed (n : Nat) (d : PermDef) (h : permFamily "pancake" [n] = some d) :
+    d.inverseClosed = true := by
+  exact Cv.Families.pancake_inverse_closed n d h
+example : (permFamily "pancake" [4]).isSome = true := by decide
+
+theorem pancake_defined_iff (n : Nat) : (permFamily "pancake" [n]).isSome ↔ 2 ≤ n := by
+  exact Cv.Families.pancake_defined_iff n
+example : (permFamily "pancake" [4]).isSome = true ∧ (permFamily "pancake" [1]).isSome = false := by decide
+
+theorem lrx_valid (n k : Nat) (d : PermDef) (h : permFamily "lrx" [n, k] = some d) :
+    (∀ p ∈ d.gens, IsPermOf n p) ∧ d.central = List.range n ∧ d.names.length = d.gens.length := by
+  exact Cv.Families.lrx_valid n k d h
+example : (permFamily "lrx" [5, 2]).isSome = true := by decide
+
+theorem lrx_count (n k : Nat) (d : PermDef) (h : permFamily "lrx" [n, k] = some d) :
+    d.gens.length = 3 := by
+  exact Cv.Families.lrx_count n k d h
+example : (permFamily "lrx" [5, 2]).isSome = true := by decide
+
+/-- L = left shift, R = right shift, X = the transposition of 0 and k -/
+theorem lrx_structure (n k : Nat) (d : PermDef) (h : permFamily "lrx" [n, k] = some d) :
+    d.names = ["L", "R", "X"] ∧
+    d.gens = [List.range' 1 (n - 1) ++ [0], [n - 1] ++ List.range (n - 1), oneLine n (swapFn 0 k)] ∧
+    transposition n 0 k = some (oneLine n (swapFn 0 k)) ∧
+    ∀ x : List Nat, x.length = n →
+      apply (List.range' 1 (n - 1) ++ [0]) x = x.drop 1 ++ x.take 1 ∧
+      apply ([n - 1] ++ List.range (n - 1)) x = x.drop (n - 1) ++ x.take (n - 1) ∧
+      apply (oneLine n (swapFn 0 k)) x = (x.set 0 (x.getD k 0)).set k (x.getD 0 0) := by
+  exact Cv.Families.lrx_structure n k d h
+example : ∃ d, permFamily "lrx" [5, 2] = some d ∧ d.gens = [[1, 2, 3, 4, 0], [4, 0, 1, 2, 3], [2, 1, 0, 3, 4]] ∧
+    d.names = ["L", "R", "X"] ∧
+    d.central = [0, 1, 2, 3, 4] ∧ d.name = "lrx-5(k=2)" :=
+  ⟨_, rfl, by decide, by decide, by decide, by decide⟩
+
+theorem lrx_name (n k : Nat) (d : PermDef) (h : permFamily "lrx" [n, k] = some d) :
+    d.name = "lrx-" ++ toString n ++ (if k = 1 then "" else "(k=" ++ toString k ++ ")") := by
+  exact Cv.Families.lrx_name n k d h
+example : (permFamily "lrx" [5, 2]).isSome = true := by decide
+
+theorem lrx_inverse_closed (n k : Nat) (d : PermDef) (h : permFamily "lrx" [n, k] = some d) :
+    d.inverseClosed = true := by
+  exact Cv.Families.lrx_inverse_closed n k d h
+example : (permFamily "lrx" [5, 2]).isSome = true := by decide
+
+theorem lrx_defined_iff (n k : Nat) :
+    (permFamily "lrx" [n, k]).isSome ↔ 3 ≤ n ∧ 1 ≤ k ∧ k < n := by
+  exact Cv.Families.lrx_defined_iff n k
+example : (permFamily "lrx" [5, 2]).isSome = true ∧ (permFamily "lrx" [5, 5]).isSome = false := by decide
+
+theorem lx_valid (n : Nat) (d : PermDef) (h : permFamily "lx" [n] = some d) :
+    (∀ p ∈ d.gens, IsPermOf n p) ∧ d.central = List.range n ∧ d.names.length = d.gens.length := by
+  exact Cv.Families.lx_valid n d h
+example : (permFamily "lx" [4]).isSome = true := by decide
+
+theorem lx_count (n : Nat) (d : PermDef) (h : permFamily "lx" [n] = some d) : d.gens.length = 2 := by
+  exact Cv.Families.lx_count n d h
+example : (permFamily "lx" [4]).isSome = true := by decide
+
+theorem lx_structure (n : Nat) (d : PermDef) (h : permFamily "lx" [n] = some d) :
+    d.names = ["L", "X"] ∧
+    d.gens = [List.range' 1 (n - 1) ++ [0], oneLine n (swapFn 0 1)] ∧
+    transposition n 0 1 = some (oneLine n (swapFn 0 1)) ∧
+    ∀ x : List Nat, x.length = n →
+      apply (List.range' 1 (n - 1) ++ [0]) x = x.drop 1 ++ x.take 1 ∧
+      apply (oneLine n (swapFn 0 1)) x = (x.set 0 (x.getD 1 0)).set 1 (x.getD 0 0) := by
+  exact Cv.Families.lx_structure n d h
+example : ∃ d, permFamily "lx" [4] = some d ∧ d.gens = [[1, 2, 3, 0], [1, 0, 2, 3]] ∧
+    d.names = ["L", "X"] ∧
+    d.central = [0, 1, 2, 3] ∧ d.name = "lx-4" :=
+  ⟨_, rfl, by decide, by decide, by decide, by decide⟩
+
+theorem lx_name (n : Nat) (d : PermDef) (h : permFamily "lx" [n] = some d) :
+    d.name = "lx-" ++ toString n := by
+  exact Cv.Families.lx_name n d h
+example : (permFamily "lx" [4]).isSome = true := by decide
+
+/-- LX is NOT inverse-closed (the inverse of L, the right shift, is neither L nor X) -/
+theorem lx_inverse_closed (n : Nat) (d : PermDef) (h : permFamily "lx" [n] = some d) :
+    d.inverseClosed = false := by
+  exact Cv.Families.lx_inverse_closed n d h
+example : (permFamily "lx" [4]).isSome = true := by decide
+
+theorem lx_defined_iff (n : Nat) : (permFamily "lx" [n]).isSome ↔ 3 ≤ n := by
+  exact Cv.Families.lx_defined_iff n
+example : (permFamily "lx" [4]).isSome = true ∧ (permFamily "lx" [2]).isSome = false := by decide
+
+theorem top_spin_valid (n k : Nat) (d : PermDef) (h : permFamily "top_spin" [n, k] = some d) :
+    (∀ p ∈ d.gens, IsPermOf n p) ∧ d.central = List.range n ∧ d.names.length = d.gens.length := by
+  exact Cv.Families.top_spin_valid n k d h
+example : (permFamily "top_spin" [6, 4]).isSome = true := by decide
+
+theorem top_spin_count (n k : Nat) (d : PermDef) (h : permFamily "top_spin" [n, k] = some d) :
+    d.gens.length = 3 := by
+  exact Cv.Families.top_spin_count n k d h
+example : (permFamily "top_spin" [6, 4]).isSome = true := by decide
+
+/-- left shift, right shift, reversal of the first `k` entries; default names -/
+theorem top_spin_structure (n k : Nat) (d : PermDef) (h : permFamily "top_spin" [n, k] = some d) :
+    d.names = d.gens.map defaultName ∧
+    d.gens = [List.range' 1 (n - 1) ++ [0], [n - 1] ++ List.range (n - 1),
+              (List.range k).reverse ++ List.range' k (n - k)] ∧
+    ∀ x : List Nat, x.length = n →
+      apply (List.range' 1 (n - 1) ++ [0]) x = x.drop 1 ++ x.take 1 ∧
+      apply ([n - 1] ++ List.range (n - 1)) x = x.drop (n - 1) ++ x.take (n - 1) ∧
+      apply ((List.range k).reverse ++ List.range' k (n - k)) x = (x.take k).reverse ++ x.drop k := by
+  exact Cv.Families.top_spin_structure n k d h
+example : ∃ d, permFamily "top_spin" [6, 4] = some d ∧ d.gens = [[1, 2, 3, 4, 5, 0], [5, 0, 1, 2, 3, 4], [3, 2, 1, 0, 4, 5]] ∧
+    d.names = ["1,2,3,4,5,0", "5,0,1,2,3,4", "3,2,1,0,4,5"] ∧
+    d.central = [0, 1, 2, 3, 4, 5] ∧ d.name = "top_spin-6-4" :=
+  ⟨_, rfl, by decide, by decide, by decide, by decide⟩
+
+theorem top_spin_inverse_closed (n k : Nat) (d : PermDef) (h : permFamily "top_spin" [n, k] = some d) :
+    d.inverseClosed = true := by
+  exact Cv.Families.top_spin_inverse_closed n k d h
+example : (permFamily "top_spin" [6, 4]).isSome = true := by decide
+
+theorem top_spin_defined_iff (n k : Nat) :
+    (permFamily "top_spin" [n, k]).isSome ↔ 2 ≤ k ∧ k ≤ n := by
+  exact Cv.Families.top_spin_defined_iff n k
+example : (permFamily "top_spin" [6, 4]).isSome = true ∧ (permFamily "top_spin" [3, 4]).isSome = false := by decide
+
+theorem coxeter_valid (n : Nat) (d : PermDef) (h : permFamily "coxeter" [n] = some d) :
+    (∀ p ∈ d.gens, IsPermOf n p) ∧ d.central = List.range n ∧ d.names.length = d.gens.length := by
+  exact Cv.Families.coxeter_valid n d h
+example : (permFamily "coxeter" [4]).isSome = true := by decide
+
+theorem coxeter_count (n : Nat) (d : PermDef) (h : permFamily "coxeter" [n] = some d) :
+    d.gens.length = n - 1 := by
+  exact Cv.Families.coxeter_count n d h
+example : (permFamily "coxeter" [4]).isSome = true := by decide
+
+/-- generator `i` is the adjacent transposition `(i, i+1)`, named `"(i,i+1)"` -/
+theorem coxeter_structure (n : Nat) (d : PermDef) (h : permFamily "coxeter" [n] = some d) :
+    ∀ i, i + 1 < n →
+      d.gens[i]? = transposition n i (i + 1) ∧
+      d.names[i]? = some ("(" ++ toString i ++ "," ++ toString (i + 1) ++ ")") ∧
+      ∀ x : List Nat, x.length = n →
+        (d.gens[i]?.map fun g => apply g x) = some ((x.set i (x.getD (i + 1) 0)).set (i + 1) (x.getD i 0)) := by
+  exact Cv.Families.coxeter_structure n d h
+example : ∃ d, permFamily "coxeter" [4] = some d ∧ d.gens = [[1, 0, 2, 3], [0, 2, 1, 3], [0, 1, 3, 2]] ∧
+    d.names = ["(0,1)", "(1,2)", "(2,3)"] ∧
+    d.central = [0, 1, 2, 3] ∧ d.name = "coxeter-4" :=
+  ⟨_, rfl, by decide, by decide, by decide, by decide⟩
+
+theorem coxeter_inverse_closed (n : Nat) (d : PermDef) (h : permFamily "coxeter" [n] = some d) :
+    d.inverseClosed = true := by
+  exact Cv.Families.coxeter_inverse_closed n d h
+example : (permFamily "coxeter" [4]).isSome = true := by decide
+
+theorem coxeter_defined_iff (n : Nat) : (permFamily "coxeter" [n]).isSome ↔ 2 ≤ n := by
+  exact Cv.Families.coxeter_defined_iff n
+example : (permFamily "coxeter" [4]).isSome = true ∧ (permFamily "coxeter" [1]).isSome = false := by decide
+
+theorem cyclic_coxeter_valid (n : Nat) (d : PermDef) (h : permFamily "cyclic_coxeter" [n] = some d) :
+    (∀ p ∈ d.gens, IsPermOf n p) ∧ d.central = List.range n ∧ d.names.length = d.gens.length := by
+  exact Cv.Families.cyclic_coxeter_valid n d h
+example : (permFamily "cyclic_coxeter" [4]).isSome = true := by decide
+
+theorem cyclic_coxeter_count (n : Nat) (d : PermDef) (h : permFamily "cyclic_coxeter" [n] = some d) :
+    d.gens.length = n := by
+  exact Cv.Families.cyclic_coxeter_count n d h
+example : (permFamily "cyclic_coxeter" [4]).isSome = true := by decide
+
+/-- generators `0..n-2` are the adjacent transpositions, generator `n-1` is `(0, n-1)` -/
+theorem cyclic_coxeter_structure (n : Nat) (d : PermDef)
+    (h : permFamily "cyclic_coxeter" [n] = some d) :
+    (∀ i, i + 1 < n →
+      d.gens[i]? = transposition n i (i + 1) ∧
+      d.names[i]? = some ("(" ++ toString i ++ "," ++ toString (i + 1) ++ ")")) ∧
+    d.gens[n - 1]? = transposition n 0 (n - 1) ∧
+    d.names[n - 1]? = some ("(0," ++ toString (n - 1) ++ ")") := by
+  exact Cv.Families.cyclic_coxeter_structure n d h
+example : ∃ d, permFamily "cyclic_coxeter" [4] = some d ∧ d.gens = [[1, 0, 2, 3], [0, 2, 1, 3], [0, 1, 3, 2], [3, 1, 2, 0]] ∧
+    d.names = ["(0,1)", "(1,2)", "(2,3)", "(0,3)"] ∧
+    d.central = [0, 1, 2, 3] ∧ d.name = "cyclic_coxeter-4" :=
+  ⟨_, rfl, by decide, by decide, by decide, by decide⟩
+
+theorem cyclic_coxeter_inverse_closed (n : Nat) (d : PermDef)
+    (h : permFamily "cyclic_coxeter" [n] = some d) : d.inverseClosed = true := by
+  exact Cv.Families.cyclic_coxeter_inverse_closed n d h
+example : (permFamily "cyclic_coxeter" [4]).isSome = true := by decide
+
+theorem cyclic_coxeter_defined_iff (n : Nat) : (permFamily "cyclic_coxeter" [n]).isSome ↔ 2 ≤ n := by
+  exact Cv.Families.cyclic_coxeter_defined_iff n
+example : (permFamily "cyclic_coxeter" [4]).isSome = true ∧ (permFamily "cyclic_coxeter" [1]).isSome = false := by decide
+
+theorem stars_valid (n : Nat) (d : PermDef) (h : permFamily "stars" [n] = some d) :
+    (∀ p ∈ d.gens, IsPermOf n p) ∧ d.central = List.range n ∧ d.names.length = d.gens.length := by
+  exact Cv.Families.stars_valid n d h
+example : (permFamily "stars" [4]).isSome = true := by decide
+
+theorem stars_count (n : Nat) (d : PermDef) (h : permFamily "stars" [n] = some d) :
+    d.gens.length = n - 1 := by
+  exact Cv.Families.stars_count n d h
+example : (permFamily "stars" [4]).isSome = true := by decide
+
+/-- generator number `i-1` is the transposition `(0, i)`, named `S<i>` -/
+theorem stars_structure (n : Nat) (d : PermDef) (h : permFamily "stars" [n] = some d) :
+    ∀ i, 1 ≤ i → i < n →
+      d.gens[i - 1]? = transposition n 0 i ∧ d.names[i - 1]? = some ("S" ++ toString i) := by
+  exact Cv.Families.stars_structure n d h
+example : ∃ d, permFamily "stars" [4] = some d ∧ d.gens = [[1, 0, 2, 3], [2, 1, 0, 3], [3, 1, 2, 0]] ∧
+    d.names = ["S1", "S2", "S3"] ∧
+    d.central = [0, 1, 2, 3] ∧ d.name = "stars-4" :=
+  ⟨_, rfl, by decide, by decide, by decide, by decide⟩
+
+theorem stars_inverse_closed (n : Nat) (d : PermDef) (h : permFamily "stars" [n] = some d) :
+    d.inverseClosed = true := by
+  exact Cv.Families.stars_inverse_closed n d h
+example : (permFamily "stars" [4]).isSome = true := by decide
+
+theorem stars_defined_iff (n : Nat) : (permFamily "stars" [n]).isSome ↔ 3 ≤ n := by
+  exact Cv.Families.stars_defined_iff n
+example : (permFamily "stars" [4]).isSome = true ∧ (permFamily "stars" [2]).isSome = false := by decide
+
+theorem generalized_stars_valid (n k : Nat) (d : PermDef)
+    (h : permFamily "generalized_stars" [n, k] = some d) :
+    (∀ p ∈ d.gens, IsPermOf n p) ∧ d.central = List.range n ∧ d.names.length = d.gens.length := by
+  exact Cv.Families.generalized_stars_valid n k d h
+example : (permFamily "generalized_stars" [5, 2]).isSome = true := by decide
+
+theorem generalized_stars_count (n k : Nat) (d : PermDef)
+    (h : permFamily "generalized_stars" [n, k] = some d) : d.gens.length = k * (n - k) := by
+  exact Cv.Families.generalized_stars_count n k d h
+example : (permFamily "generalized_stars" [5, 2]).isSome = true := by decide
+
+/-- the generators are the transpositions `(i j)`, `i < k ≤ j < n`, named `S<i>-<j>` -/
+theorem generalized_stars_structure (n k : Nat) (d : PermDef)
+    (h : permFamily "generalized_stars" [n, k] = some d) :
+    d.gens.map some = (pairsSplit n k).map (fun x => transposition n x.1 x.2) ∧
+    d.names = (pairsSplit n k).map (fun x => "S" ++ toString x.1 ++ "-" ++ toString x.2) ∧
+    ∀ i j, (i, j) ∈ pairsSplit n k ↔ i < k ∧ k ≤ j ∧ j < n := by
+  exact Cv.Families.generalized_stars_structure n k d h
+example : ∃ d, permFamily "generalized_stars" [5, 2] = some d ∧ d.gens = [[2, 1, 0, 3, 4], [3, 1, 2, 0, 4], [4, 1, 2, 3, 0], [0, 2, 1, 3, 4], [0, 3, 2, 1, 4], [0, 4, 2, 3, 1]] ∧
+    d.names = ["S0-2", "S0-3", "S0-4", "S1-2", "S1-3", "S1-4"] ∧
+    d.central = [0, 1, 2, 3, 4] ∧ d.name = "generalized-stars-5-2" :=
+  ⟨_, rfl, by decide, by decide, by decide, by decide⟩
+
+theorem generalized_stars_inverse_closed (n k : Nat) (d : PermDef)
+    (h : permFamily "generalized_stars" [n, k] = some d) : d.inverseClosed = true := by
+  exact Cv.Families.generalized_stars_inverse_closed n k d h
+example : (permFamily "generalized_stars" [5, 2]).isSome = true := by decide
+
+theorem generalized_stars_defined_iff (n k : Nat) :
+    (permFamily "generalized_stars" [n, k]).isSome ↔ 3 ≤ n ∧ 1 ≤ k ∧ k < n := by
+  exact Cv.Families.generalized_stars_defined_iff n k
+example : (permFamily "generalized_stars" [5, 2]).isSome = true ∧ (permFamily "generalized_stars" [5, 5]).isSome = false := by decide
+
+theorem all_transpositions_valid (n : Nat) (d : PermDef)
+    (h : permFamily "all_transpositions" [n] = some d) :
+    (∀ p ∈ d.gens, IsPermOf n p) ∧ d.central = List.range n ∧ d.names.length = d.gens.length := by
+  exact Cv.Families.all_transpositions_valid n d h
+example : (permFamily "all_transpositions" [4]).isSome = true := by decide
+
+/-- `n(n-1)/2` generators -/
+theorem all_transpositions_count (n : Nat) (d : PermDef)
+    (h : permFamily "all_transpositions" [n] = some d) : 2 * d.gens.length = n * (n - 1) := by
+  exact Cv.Families.all_transpositions_count n d h
+example : (permFamily "all_transpositions" [4]).isSome = true := by decide
+
+/-- the generators are the transpositions `(i j)`, `i < j < n`, in lexicographic order, named `(i,j)` -/
+theorem all_transpositions_structure (n : Nat) (d : PermDef)
+    (h : permFamily "all_transpositions" [n] = some d) :
+    d.gens.map some = (pairsLt n).map (fun x => transposition n x.1 x.2) ∧
+    d.names = (pairsLt n).map (fun x => "(" ++ toString x.1 ++ "," ++ toString x.2 ++ ")") ∧
+    ∀ i j, (i, j) ∈ pairsLt n ↔ i < j ∧ j < n := by
+  exact Cv.Families.all_transpositions_structure n d h
+example : ∃ d, permFamily "all_transpositions" [4] = some d ∧ d.gens = [[1, 0, 2, 3], [2, 1, 0, 3], [3, 1, 2, 0], [0, 2, 1, 3], [0, 3, 2, 1], [0, 1, 3, 2]] ∧
+    d.names = ["(0,1)", "(0,2)", "(0,3)", "(1,2)", "(1,3)", "(2,3)"] ∧
+    d.central = [0, 1, 2, 3] ∧ d.name = "" :=
+  ⟨_, rfl, by decide, by decide, by decide, by decide⟩
+
+theorem all_transpositions_inverse_closed (n : Nat) (d : PermDef)
+    (h : permFamily "all_transpositions" [n] = some d) : d.inverseClosed = true := by
+  exact Cv.Families.all_transpositions_inverse_closed n d h
+example : (permFamily "all_transpositions" [4]).isSome = true := by decide
+
+theorem all_transpositions_defined_iff (n : Nat) :
+    (permFamily "all_transpositions" [n]).isSome ↔ 2 ≤ n := by
+  exact Cv.Families.all_transpositions_defined_iff n
+example : (permFamily "all_transpositions" [4]).isSome = true ∧ (permFamily "all_transpositions" [1]).isSome = false := by decide
+
+theorem full_reversals_valid (n : Nat) (d : PermDef) (h : permFamily "full_reversals" [n] = some d) :
+    (∀ p ∈ d.gens, IsPermOf n p) ∧ d.central = List.range n ∧ d.names.length = d.gens.length := by
+  exact Cv.Families.full_reversals_valid n d h
+example : (permFamily "full_reversals" [4]).isSome = true := by decide
+
+/-- `n(n-1)/2` generators -/
+theorem full_reversals_count (n : Nat) (d : PermDef) (h : permFamily "full_reversals" [n] = some d) :
+    2 * d.gens.length = n * (n - 1) := by
+  exact Cv.Families.full_reversals_count n d h
+example : (permFamily "full_reversals" [4]).isSome = true := by decide
+
+/-- the generators are the reversals of the substrings `i..j`, `i < j < n` (lexicographic order),
+named `R[i..j]` -/
+theorem full_reversals_structure (n : Nat) (d : PermDef)
+    (h : permFamily "full_reversals" [n] = some d) :
+    d.gens = (pairsLt n).map (fun x =>
+      List.range x.1 ++ (List.range' x.1 (x.2 + 1 - x.1)).reverse ++ List.range' (x.2 + 1) (n - (x.2 + 1))) ∧
+    d.names = (pairsLt n).map (fun x => "R[" ++ toString x.1 ++ ".." ++ toString x.2 ++ "]") ∧
+    (∀ i j, (i, j) ∈ pairsLt n ↔ i < j ∧ j < n) ∧
+    ∀ i j, i < j → j < n → ∀ x : List Nat, x.length = n →
+      apply (List.range i ++ (List.range' i (j + 1 - i)).reverse ++ List.range' (j + 1) (n - (j + 1))) x =
+        x.take i ++ ((x.drop i).take (j + 1 - i)).reverse ++ x.drop (j + 1) := by
+  exact Cv.Families.full_reversals_structure n d h
+example : ∃ d, permFamily "full_reversals" [4] = some d ∧ d.gens = [[1, 0, 2, 3], [2, 1, 0, 3], [3, 2, 1, 0], [0, 2, 1, 3], [0, 3, 2, 1], [0, 1, 3, 2]] ∧
+    d.names = ["R[0..1]", "R[0..2]", "R[0..3]", "R[1..2]", "R[1..3]", "R[2..3]"] ∧
+    d.central = [0, 1, 2, 3] ∧ d.name = "" :=
+  ⟨_, rfl, by decide, by decide, by decide, by decide⟩
+
+theorem full_reversals_inverse_closed (n : Nat) (d : PermDef)
+    (h : permFamily "full_reversals" [n] = some d) : d.inverseClosed = true := by
+  exact Cv.Families.full_reversals_inverse_closed n d h
+example : (permFamily "full_reversals" [4]).isSome = true := by decide
+
+theorem full_reversals_defined_iff (n : Nat) : (permFamily "full_reversals" [n]).isSome ↔ 2 ≤ n := by
+  exact Cv.Families.full_reversals_defined_iff n
+example : (permFamily "full_reversals" [4]).isSome = true ∧ (permFamily "full_reversals" [1]).isSome = false := by decide
+
+theorem signed_reversals_valid (n : Nat) (d : PermDef)
+    (h : permFamily "signed_reversals" [n] = some d) :
+    (∀ p ∈ d.gens, IsPermOf (2 * n) p) ∧ d.central = List.range (2 * n) ∧
+      d.names.length = d.gens.length := by
+  exact Cv.Families.signed_reversals_valid n d h
+example : (permFamily "signed_reversals" [3]).isSome = true := by decide
+
+/-- `n(n+1)/2` generators -/
+theorem signed_reversals_count (n : Nat) (d : PermDef)
+    (h : permFamily "signed_reversals" [n] = some d) : 2 * d.gens.length = n * (n + 1) := by
+  exact Cv.Families.signed_reversals_count n d h
+example : (permFamily "signed_reversals" [3]).isSome = true := by decide
+
+theorem signed_reversals_structure (n : Nat) (d : PermDef)
+    (h : permFamily "signed_reversals" [n] = some d) :
+    d.gens = (pairsLe n).map (fun x =>
+      List.range x.1 ++ (List.range' (n + x.1) (x.2 + 1 - x.1)).reverse ++
+      List.range' (x.2 + 1) (n - (x.2 + 1)) ++ List.range' n x.1 ++
+      (List.range' x.1 (x.2 + 1 - x.1)).reverse ++ List.range' (n + x.2 + 1) (n - (x.2 + 1))) ∧
+    d.names = (pairsLe n).map (fun x => "R[" ++ toString x.1 ++ ".." ++ toString x.2 ++ "]") ∧
+    (∀ i j, (i, j) ∈ pairsLe n ↔ i ≤ j ∧ j < n) ∧
+    ∀ i j, i ≤ j → j < n → ∀ B T : List Nat, B.length = n → T.length = n →
+      apply (oneLine (2 * n) (signedRevFn n i j)) (B ++ T) =
+        (B.take i ++ ((T.drop i).take (j + 1 - i)).reverse ++ B.drop (j + 1)) ++
+        (T.take i ++ ((B.drop i).take (j + 1 - i)).reverse ++ T.drop (j + 1)) := by
+  exact Cv.Families.signed_reversals_structure n d h
+example : ∃ d, permFamily "signed_reversals" [3] = some d ∧ d.gens = [[3, 1, 2, 0, 4, 5], [4, 3, 2, 1, 0, 5], [5, 4, 3, 2, 1, 0], [0, 4, 2, 3, 1, 5], [0, 5, 4, 3, 2, 1], [0, 1, 5, 3, 4, 2]] ∧
+    d.names = ["R[0..0]", "R[0..1]", "R[0..2]", "R[1..1]", "R[1..2]", "R[2..2]"] ∧
+    d.central = [0, 1, 2, 3, 4, 5] ∧ d.name = "" :=
+  ⟨_, rfl, by decide, by decide, by decide, by decide⟩
+
+theorem signed_reversals_inverse_closed (n : Nat) (d : PermDef)
+    (h : permFamily "signed_reversals" [n] = some d) : d.inverseClosed = true := by
+  exact Cv.Families.signed_reversals_inverse_closed n d h
+example : (permFamily "signed_reversals" [3]).isSome = true := by decide
+
+theorem signed_reversals_defined_iff (n : Nat) :
+    (permFamily "signed_reversals" [n]).isSome ↔ 1 ≤ n := by
+  exact Cv.Families.signed_reversals_defined_iff n
+example : (permFamily "signed_reversals" [3]).isSome = true ∧ (permFamily "signed_reversals" [0]).isSome = false := by decide
+
+theorem burnt_pancake_valid (n : Nat) (d : PermDef) (h : permFamily "burnt_pancake" [n] = some d) :
+    (∀ p ∈ d.gens, IsPermOf (2 * n) p) ∧ d.central = List.range (2 * n) ∧
+      d.names.length = d.gens.length := by
+  exact Cv.Families.burnt_pancake_valid n d h
+example : (permFamily "burnt_pancake" [3]).isSome = true := by decide
+
+theorem burnt_pancake_count (n : Nat) (d : PermDef) (h : permFamily "burnt_pancake" [n] = some d) :
+    d.gens.length = n := by
+  exact Cv.Families.burnt_pancake_count n d h
+example : (permFamily "burnt_pancake" [3]).isSome = true := by decide
+
+/-- generator `t` (named `R<t+1>`) reverses the top `t+1` pancakes and turns each of them over -/
+theorem burnt_pancake_structure (n : Nat) (d : PermDef)
+    (h : permFamily "burnt_pancake" [n] = some d) :
+    ∀ t, t < n →
+      d.gens[t]? = some ((List.range' n (t + 1)).reverse ++ List.range' (t + 1) (n - (t + 1)) ++
+        (List.range (t + 1)).reverse ++ List.range' (n + t + 1) (n - (t + 1))) ∧
+      d.names[t]? = some ("R" ++ toString (t + 1)) ∧
+      ∀ B T : List Nat, B.length = n → T.length = n →
+        (d.gens[t]?.map fun g => apply g (B ++ T)) =
+          some (((T.take (t + 1)).reverse ++ B.drop (t + 1)) ++ ((B.take (t + 1)).reverse ++ T.drop (t + 1))) := by
+  exact Cv.Families.burnt_pancake_structure n d h
+example : ∃ d, permFamily "burnt_pancake" [3] = some d ∧ d.gens = [[3, 1, 2, 0, 4, 5], [4, 3, 2, 1, 0, 5], [5, 4, 3, 2, 1, 0]] ∧
+    d.names = ["R1", "R2", "R3"] ∧
+    d.central = [0, 1, 2, 3, 4, 5] ∧ d.name = "burnt_pancake-3" :=
+  ⟨_, rfl, by decide, by decide, by decide, by decide⟩
+
+theorem burnt_pancake_inverse_closed (n : Nat) (d : PermDef)
+    (h : permFamily "burnt_pancake" [n] = some d) : d.inverseClosed = true := by
+  exact Cv.Families.burnt_pancake_inverse_closed n d h
+example : (permFamily "burnt_pancake" [3]).isSome = true := by decide
+
+theorem burnt_pancake_defined_iff (n : Nat) : (permFamily "burnt_pancake" [n]).isSome ↔ 1 ≤ n := by
+  exact Cv.Families.burnt_pancake_defined_iff n
+example : (permFamily "burnt_pancake" [3]).isSome = true ∧ (permFamily "burnt_pancake" [0]).isSome = false := by decide
+
+theorem transposons_valid (n : Nat) (d : PermDef) (h : permFamily "transposons" [n] = some d) :
+    (∀ p ∈ d.gens, IsPermOf n p) ∧ d.central = List.range n ∧ d.names.length = d.gens.length := by
+  exact Cv.Families.transposons_valid n d h
+example : (permFamily "transposons" [4]).isSome = true := by decide
+
+/-- the generators are the moves "substring `i..j-1` behind substring `j..k`" for all
+`i < j ≤ k < n` (lexicographic order), named `T[i..j-1,k]` -/
+theorem transposons_structure (n : Nat) (d : PermDef) (h : permFamily "transposons" [n] = some d) :
+    d.gens = (triplesT n).map (fun x =>
+      List.range x.1 ++ List.range' x.2.1 (x.2.2 + 1 - x.2.1) ++ List.range' x.1 (x.2.1 - x.1) ++
+      List.range' (x.2.2 + 1) (n - (x.2.2 + 1))) ∧
+    d.names = (triplesT n).map (fun x =>
+      "T[" ++ toString x.1 ++ ".." ++ toString (x.2.1 - 1) ++ "," ++ toString x.2.2 ++ "]") ∧
+    (∀ i j k, (i, j, k) ∈ triplesT n ↔ i < j ∧ j ≤ k ∧ k < n) ∧
+    ∀ i j k, i < j → j ≤ k → k < n → ∀ x : List Nat, x.length = n →
+      apply (List.range i ++ List.range' j (k + 1 - j) ++ List.range' i (j - i) ++
+          List.range' (k + 1) (n - (k + 1))) x =
+        x.take i ++ (x.drop j).take (k + 1 - j) ++ (x.drop i).take (j - i) ++ x.drop (k + 1) := by
+  exact Cv.Families.transposons_structure n d h
+example : ∃ d, permFamily "transposons" [4] = some d ∧ d.gens = [[1, 0, 2, 3], [1, 2, 0, 3], [1, 2, 3, 0], [2, 0, 1, 3], [2, 3, 0, 1], [3, 0, 1, 2], [0, 2, 1, 3], [0, 2, 3, 1], [0, 3, 1, 2], [0, 1, 3, 2]] ∧
+    d.names = ["T[0..0,1]", "T[0..0,2]", "T[0..0,3]", "T[0..1,2]", "T[0..1,3]", "T[0..2,3]", "T[1..1,2]", "T[1..1,3]", "T[1..2,3]", "T[2..2,3]"] ∧
+    d.central = [0, 1, 2, 3] ∧ d.name = "" :=
+  ⟨_, rfl, by decide, by decide, by decide, by decide⟩
+
+/-- inverse-closed: moving `i..j-1` behind `j..k` is undone by moving the (new) first block back -/
+theorem transposons_inverse_closed (n : Nat) (d : PermDef)
+    (h : permFamily "transposons" [n] = some d) : d.inverseClosed = true := by
+  exact Cv.Families.transposons_inverse_closed n d h
+example : (permFamily "transposons" [4]).isSome = true := by decide
+
+theorem transposons_defined_iff (n : Nat) : (permFamily "transposons" [n]).isSome ↔ 2 ≤ n := by
+  exact Cv.Families.transposons_defined_iff n
+example : (permFamily "transposons" [4]).isSome = true ∧ (permFamily "transposons" [1]).isSome = false := by decide
+
+theorem block_interchange_valid (n : Nat) (d : PermDef)
+    (h : permFamily "block_interchange" [n] = some d) :
+    (∀ p ∈ d.gens, IsPermOf n p) ∧ d.central = List.range n ∧ d.names.length = d.gens.length := by
+  exact Cv.Families.block_interchange_valid n d h
+example : (permFamily "block_interchange" [4]).isSome = true := by decide
+
+/-- the generators interchange the substrings `i..j-1` and `k..l-1` for all `i < j ≤ k < l ≤ n`
+(lexicographic order), named `I[i..j-1,k..l-1]` -/
+theorem block_interchange_structure (n : Nat) (d : PermDef)
+    (h : permFamily "block_interchange" [n] = some d) :
+    d.gens = (quadsI n).map (fun x =>
+      List.range x.1 ++ List.range' x.2.2.1 (x.2.2.2 - x.2.2.1) ++ List.range' x.2.1 (x.2.2.1 - x.2.1) ++
+      List.range' x.1 (x.2.1 - x.1) ++ List.range' x.2.2.2 (n - x.2.2.2)) ∧
+    d.names = (quadsI n).map (fun x =>
+      "I[" ++ toString x.1 ++ ".." ++ toString (x.2.1 - 1) ++ "," ++ toString x.2.2.1 ++ ".." ++
+        toString (x.2.2.2 - 1) ++ "]") ∧
+    (∀ i j k l, (i, j, k, l) ∈ quadsI n ↔ i < j ∧ j ≤ k ∧ k < l ∧ l ≤ n) ∧
+    ∀ i j k l, i < j → j ≤ k → k < l → l ≤ n → ∀ x : List Nat, x.length = n →
+      apply (List.range i ++ List.range' k (l - k) ++ List.range' j (k - j) ++ List.range' i (j - i) ++
+          List.range' l (n - l)) x =
+        x.take i ++ (x.drop k).take (l - k) ++ (x.drop j).take (k - j) ++ (x.drop i).take (j - i) ++
+          x.drop l := by
+  exact Cv.Families.block_interchange_structure n d h
+example : ∃ d, permFamily "block_interchange" [4] = some d ∧ d.gens = [[1, 0, 2, 3], [1, 2, 0, 3], [1, 2, 3, 0], [2, 1, 0, 3], [2, 3, 1, 0], [3, 1, 2, 0], [2, 0, 1, 3], [2, 3, 0, 1], [3, 2, 0, 1], [3, 0, 1, 2], [0, 2, 1, 3], [0, 2, 3, 1], [0, 3, 2, 1], [0, 3, 1, 2], [0, 1, 3, 2]] ∧
+    d.names = ["I[0..0,1..1]", "I[0..0,1..2]", "I[0..0,1..3]", "I[0..0,2..2]", "I[0..0,2..3]", "I[0..0,3..3]", "I[0..1,2..2]", "I[0..1,2..3]", "I[0..1,3..3]", "I[0..2,3..3]", "I[1..1,2..2]", "I[1..1,2..3]", "I[1..1,3..3]", "I[1..2,3..3]", "I[2..2,3..3]"] ∧
+    d.central = [0, 1, 2, 3] ∧ d.name = "" :=
+  ⟨_, rfl, by decide, by decide, by decide, by decide⟩
+
+theorem block_interchange_inverse_closed (n : Nat) (d : PermDef)
+    (h : permFamily "block_interchange" [n] = some d) : d.inverseClosed = true := by
+  exact Cv.Families.block_interchange_inverse_closed n d h
+example : (permFamily "block_interchange" [4]).isSome = true := by decide
+
+theorem block_interchange_defined_iff (n : Nat) :
+    (permFamily "block_interchange" [n]).isSome ↔ 2 ≤ n := by
+  exact Cv.Families.block_interchange_defined_iff n
+example : (permFamily "block_interchange" [4]).isSome = true ∧ (permFamily "block_interchange" [1]).isSome = false := by decide
+
+theorem cubic_pancake_valid (n s : Nat) (d : PermDef)
+    (h : permFamily "cubic_pancake" [n, s] = some d) :
+    (∀ p ∈ d.gens, IsPermOf n p) ∧ d.central = List.range n ∧ d.names.length = d.gens.length := by
+  exact Cv.Families.cubic_pancake_valid n s d h
+example : (permFamily "cubic_pancake" [5, 4]).isSome = true := by decide
+
+theorem cubic_pancake_count (n s : Nat) (d : PermDef)
+    (h : permFamily "cubic_pancake" [n, s] = some d) : d.gens.length = 3 := by
+  exact Cv.Families.cubic_pancake_count n s d h
+example : (permFamily "cubic_pancake" [5, 4]).isSome = true := by decide
+
+/-- the three generators are the prefix reversals of the lengths listed in the docstring table
+(`cubicLengths`), named `R<length>`; here `R<i>` reverses the first `i` entries -/
+theorem cubic_pancake_structure (n s : Nat) (d : PermDef)
+    (h : permFamily "cubic_pancake" [n, s] = some d) :
+    ∃ ls : List Nat, cubicLengths n s = some (ls.map Int.ofNat) ∧ ls.length = 3 ∧ (∀ l ∈ ls, l ≤ n) ∧
+      d.gens = ls.map (fun l => (List.range l).reverse ++ List.range' l (n - l)) ∧
+      d.names = ls.map (fun l => "R" ++ toString l) ∧
+      ∀ l ∈ ls, ∀ x : List Nat, x.length = n →
+        apply ((List.range l).reverse ++ List.range' l (n - l)) x = (x.take l).reverse ++ x.drop l := by
+  exact Cv.Families.cubic_pancake_structure n s d h
+example : ∃ d, permFamily "cubic_pancake" [5, 4] = some d ∧ d.gens = [[4, 3, 2, 1, 0], [3, 2, 1, 0, 4], [1, 0, 2, 3, 4]] ∧
+    d.names = ["R5", "R4", "R2"] ∧
+    d.central = [0, 1, 2, 3, 4] ∧ d.name = "cubic_pancake-5-4" :=
+  ⟨_, rfl, by decide, by decide, by decide, by decide⟩
+
+theorem cubic_pancake_inverse_closed (n s : Nat) (d : PermDef)
+    (h : permFamily "cubic_pancake" [n, s] = some d) : d.inverseClosed = true := by
+  exact Cv.Families.cubic_pancake_inverse_closed n s d h
+example : (permFamily "cubic_pancake" [5, 4]).isSome = true := by decide
+
+/-- the library returns a definition for `n ≥ 2`, `subset ∈ 1..7`, EXCEPT for `n = 2` and
+`subset ∈ {2, 4, 6, 7}` (the docstring promises all `n ≥ 2`): there a requested prefix length
+(`3` or `n-3 = -1`) does not exist and `CayleyGraphDef.create` rejects the generator. -/
+theorem cubic_pancake_defined_iff (n s : Nat) :
+    (permFamily "cubic_pancake" [n, s]).isSome ↔
+      2 ≤ n ∧ 1 ≤ s ∧ s ≤ 7 ∧ (n = 2 → s = 1 ∨ s = 3 ∨ s = 5) := by
+  exact Cv.Families.cubic_pancake_defined_iff n s
+example : (permFamily "cubic_pancake" [5, 4]).isSome = true ∧ (permFamily "cubic_pancake" [2, 4]).isSome = false := by decide
+
+theorem consecutive_k_cycles_valid (n k : Nat) (d : PermDef)
+    (h : permFamily "consecutive_k_cycles" [n, k] = some d) :
+    (∀ p ∈ d.gens, IsPermOf n p) ∧ d.central = List.range n ∧ d.names.length = d.gens.length := by
+  exact Cv.Families.consecutive_k_cycles_valid n k d h
+example : (permFamily "consecutive_k_cycles" [5, 3]).isSome = true := by decide
+
+theorem consecutive_k_cycles_count (n k : Nat) (d : PermDef)
+    (h : permFamily "consecutive_k_cycles" [n, k] = some d) : d.gens.length = n - k + 1 := by
+  exact Cv.Families.consecutive_k_cycles_count n k d h
+example : (permFamily "consecutive_k_cycles" [5, 3]).isSome = true := by decide
+
+/-- generator `i` is the cycle `(i, i+1, …, i+k-1)` (as built by `permutation_from_cycles`), named
+`"(i,i+1,…,i+k-1)"`; it rotates the entries `i..i+k-1` of a sequence one step to the left -/
+theorem consecutive_k_cycles_structure (n k : Nat) (d : PermDef)
+    (h : permFamily "consecutive_k_cycles" [n, k] = some d) :
+    ∀ i, i + k ≤ n →
+      d.gens[i]? = fromCycles n [(List.range' i k).map Int.ofNat] ∧
+      d.names[i]? = some ("(" ++ ",".intercalate ((List.range' i k).map toString) ++ ")") ∧
+      ∀ x : List Nat, x.length = n →
+        (d.gens[i]?.map fun g => apply g x) =
+          some (x.take i ++ (x.drop (i + 1)).take (k - 1) ++ [x.getD i 0] ++ x.drop (i + k)) := by
+  exact Cv.Families.consecutive_k_cycles_structure n k d h
+example : ∃ d, permFamily "consecutive_k_cycles" [5, 3] = some d ∧ d.gens = [[1, 2, 0, 3, 4], [0, 2, 3, 1, 4], [0, 1, 3, 4, 2]] ∧
+    d.names = ["(0,1,2)", "(1,2,3)", "(2,3,4)"] ∧
+    d.central = [0, 1, 2, 3, 4] ∧ d.name = "consecutive_k_cycles-5-3" :=
+  ⟨_, rfl, by decide, by decide, by decide, by decide⟩
+
+/-- inverse-closed exactly for `k ≤ 2` (identity / adjacent transpositions) -/
+theorem consecutive_k_cycles_inverse_closed (n k : Nat) (d : PermDef)
+    (h : permFamily "consecutive_k_cycles" [n, k] = some d) : d.inverseClosed = decide (k ≤ 2) := by
+  exact Cv.Families.consecutive_k_cycles_inverse_closed n k d h
+example : (permFamily "consecutive_k_cycles" [5, 3]).isSome = true := by decide
+
+theorem consecutive_k_cycles_defined_iff (n k : Nat) :
+    (permFamily "consecutive_k_cycles" [n, k]).isSome ↔ 1 ≤ n ∧ 1 ≤ k ∧ k ≤ n := by
+  exact Cv.Families.consecutive_k_cycles_defined_iff n k
+example : (permFamily "consecutive_k_cycles" [5, 3]).isSome = true ∧ (permFamily "consecutive_k_cycles" [3, 4]).isSome = false := by decide
+
+theorem down_cycles_valid (n : Nat) (d : PermDef) (h : permFamily "down_cycles" [n] = some d) :
+    (∀ p ∈ d.gens, IsPermOf n p) ∧ d.central = List.range n ∧ d.names.length = d.gens.length := by
+  exact Cv.Families.down_cycles_valid n d h
+example : (permFamily "down_cycles" [4]).isSome = true := by decide
+
+theorem down_cycles_count (n : Nat) (d : PermDef) (h : permFamily "down_cycles" [n] = some d) :
+    2 * d.gens.length = n * (n - 1) := by
+  exact Cv.Families.down_cycles_count n d h
+example : (permFamily "down_cycles" [4]).isSome = true := by decide
+
+/-- the generators are the cycles `(i, i+1, …, j)`, `i < j < n` (lexicographic order) -/
+theorem down_cycles_structure (n : Nat) (d : PermDef) (h : permFamily "down_cycles" [n] = some d) :
+    d.gens.map some =
+      (pairsLt n).map (fun x => fromCycles n [(List.range' x.1 (x.2 + 1 - x.1)).map Int.ofNat]) ∧
+    d.names = (pairsLt n).map (fun x =>
+      "(" ++ ",".intercalate ((List.range' x.1 (x.2 + 1 - x.1)).map toString) ++ ")") ∧
+    ∀ i j, (i, j) ∈ pairsLt n ↔ i < j ∧ j < n := by
+  exact Cv.Families.down_cycles_structure n d h
+example : ∃ d, permFamily "down_cycles" [4] = some d ∧ d.gens = [[1, 0, 2, 3], [1, 2, 0, 3], [1, 2, 3, 0], [0, 2, 1, 3], [0, 2, 3, 1], [0, 1, 3, 2]] ∧
+    d.names = ["(0,1)", "(0,1,2)", "(0,1,2,3)", "(1,2)", "(1,2,3)", "(2,3)"] ∧
+    d.central = [0, 1, 2, 3] ∧ d.name = "down_cycles-4" :=
+  ⟨_, rfl, by decide, by decide, by decide, by decide⟩
+
+/-- inverse-closed only for `n = 2` -/
+theorem down_cycles_inverse_closed (n : Nat) (d : PermDef)
+    (h : permFamily "down_cycles" [n] = some d) : d.inverseClosed = decide (n = 2) := by
+  exact Cv.Families.down_cycles_inverse_closed n d h
+example : (permFamily "down_cycles" [4]).isSome = true := by decide
+
+theorem down_cycles_defined_iff (n : Nat) : (permFamily "down_cycles" [n]).isSome ↔ 2 ≤ n := by
+  exact Cv.Families.down_cycles_defined_iff n
+example : (permFamily "down_cycles" [4]).isSome = true ∧ (permFamily "down_cycles" [1]).isSome = false := by decide
+
+theorem prefix_cycles_valid (n : Nat) (d : PermDef) (h : permFamily "prefix_cycles" [n] = some d) :
+    (∀ p ∈ d.gens, IsPermOf n p) ∧ d.central = List.range n ∧ d.names.length = d.gens.length := by
+  exact Cv.Families.prefix_cycles_valid n d h
+example : (permFamily "prefix_cycles" [4]).isSome = true := by decide
+
+theorem prefix_cycles_count (n : Nat) (d : PermDef) (h : permFamily "prefix_cycles" [n] = some d) :
+    d.gens.length = n - 1 := by
+  exact Cv.Families.prefix_cycles_count n d h
+example : (permFamily "prefix_cycles" [4]).isSome = true := by decide
+
+/-- generator number `j-2` is the cycle `(0 1 … j-1)`, `j = 2..n` -/
+theorem prefix_cycles_structure (n : Nat) (d : PermDef)
+    (h : permFamily "prefix_cycles" [n] = some d) :
+    ∀ j, 2 ≤ j → j ≤ n →
+      d.gens[j - 2]? = fromCycles n [(List.range j).map Int.ofNat] ∧
+      d.names[j - 2]? = some ("(" ++ ",".intercalate ((List.range j).map toString) ++ ")") := by
+  exact Cv.Families.prefix_cycles_structure n d h
+example : ∃ d, permFamily "prefix_cycles" [4] = some d ∧ d.gens = [[1, 0, 2, 3], [1, 2, 0, 3], [1, 2, 3, 0]] ∧
+    d.names = ["(0,1)", "(0,1,2)", "(0,1,2,3)"] ∧
+    d.central = [0, 1, 2, 3] ∧ d.name = "prefix_cycles-4" :=
+  ⟨_, rfl, by decide, by decide, by decide, by decide⟩
+
+/-- inverse-closed only for `n = 2` -/
+theorem prefix_cycles_inverse_closed (n : Nat) (d : PermDef)
+    (h : permFamily "prefix_cycles" [n] = some d) : d.inverseClosed = decide (n = 2) := by
+  exact Cv.Families.prefix_cycles_inverse_closed n d h
+example : (permFamily "prefix_cycles" [4]).isSome = true := by decide
+
+theorem prefix_cycles_defined_iff (n : Nat) : (permFamily "prefix_cycles" [n]).isSome ↔ 2 ≤ n := by
+  exact Cv.Families.prefix_cycles_defined_iff n
+example : (permFamily "prefix_cycles" [4]).isSome = true ∧ (permFamily "prefix_cycles" [1]).isSome = false := by decide
+
+theorem wrapped_k_cycles_valid (n k : Nat) (d : PermDef)
+    (h : permFamily "wrapped_k_cycles" [n, k] = some d) :
+    (∀ p ∈ d.gens, IsPermOf n p) ∧ d.central = List.range n ∧ d.names.length = d.gens.length := by
+  exact Cv.Families.wrapped_k_cycles_valid n k d h
+example : (permFamily "wrapped_k_cycles" [5, 3]).isSome = true := by decide
+
+theorem wrapped_k_cycles_count (n k : Nat) (d : PermDef)
+    (h : permFamily "wrapped_k_cycles" [n, k] = some d) : d.gens.length = n := by
+  exact Cv.Families.wrapped_k_cycles_count n k d h
+example : (permFamily "wrapped_k_cycles" [5, 3]).isSome = true := by decide
+
+/-- generator `s` is the cycle `(s, s+1, …, s+k-1)` with entries modulo `n`, named by its entries
+separated by blanks -/
+theorem wrapped_k_cycles_structure (n k : Nat) (d : PermDef)
+    (h : permFamily "wrapped_k_cycles" [n, k] = some d) :
+    ∀ s, s < n →
+      d.gens[s]? = fromCycles n [((List.range k).map fun j => (s + j) % n).map Int.ofNat] ∧
+      d.names[s]? = some ("(" ++ " ".intercalate (((List.range k).map fun j => (s + j) % n).map toString)
+        ++ ")") := by
+  exact Cv.Families.wrapped_k_cycles_structure n k d h
+example : ∃ d, permFamily "wrapped_k_cycles" [5, 3] = some d ∧ d.gens = [[1, 2, 0, 3, 4], [0, 2, 3, 1, 4], [0, 1, 3, 4, 2], [3, 1, 2, 4, 0], [1, 4, 2, 3, 0]] ∧
+    d.names = ["(0 1 2)", "(1 2 3)", "(2 3 4)", "(3 4 0)", "(4 0 1)"] ∧
+    d.central = [0, 1, 2, 3, 4] ∧ d.name = "wrapped_k_cycles-5-3" :=
+  ⟨_, rfl, by decide, by decide, by decide, by decide⟩
+
+/-- inverse-closed exactly for `k = 2` -/
+theorem wrapped_k_cycles_inverse_closed (n k : Nat) (d : PermDef)
+    (h : permFamily "wrapped_k_cycles" [n, k] = some d) : d.inverseClosed = decide (k = 2) := by
+  exact Cv.Families.wrapped_k_cycles_inverse_closed n k d h
+example : (permFamily "wrapped_k_cycles" [5, 3]).isSome = true := by decide
+
+theorem wrapped_k_cycles_defined_iff (n k : Nat) :
+    (permFamily "wrapped_k_cycles" [n, k]).isSome ↔ 2 ≤ n ∧ 2 ≤ k ∧ k ≤ n := by
+  exact Cv.Families.wrapped_k_cycles_defined_iff n k
+example : (permFamily "wrapped_k_cycles" [5, 3]).isSome = true ∧ (permFamily "wrapped_k_cycles" [5, 1]).isSome = false := by decide
+
+theorem lsl_cycles_valid (n : Nat) (b : Bool) (d : PermDef)
+    (h : permFamily "lsl_cycles" [n] [b] = some d) :
+    (∀ p ∈ d.gens, IsPermOf n p) ∧ d.central = List.range n ∧ d.names.length = d.gens.length := by
+  exact Cv.Families.lsl_cycles_valid n b d h
+example : (permFamily "lsl_cycles" [4] [false]).isSome = true := by decide
+
+theorem lsl_cycles_count (n : Nat) (b : Bool) (d : PermDef)
+    (h : permFamily "lsl_cycles" [n] [b] = some d) : d.gens.length = if b then 4 else 2 := by
+  exact Cv.Families.lsl_cycles_count n b d h
+example : (permFamily "lsl_cycles" [4] [false]).isSome = true := by decide
+
+/-- L = long cycle `(0 1 … n-1)`, S = sub-long cycle `(1 2 … n-1)`; with `add_inverses` their
+inverses follow -/
+theorem lsl_cycles_structure (n : Nat) (b : Bool) (d : PermDef)
+    (h : permFamily "lsl_cycles" [n] [b] = some d) :
+    ∃ L S, fromCycles n [(List.range n).map Int.ofNat] = some L ∧
+      fromCycles n [(List.range' 1 (n - 1)).map Int.ofNat, [0]] = some S ∧
+      d.gens = (if b then [L, S, inverse L, inverse S] else [L, S]) ∧
+      d.names = (if b then ["L", "S", "L_inv", "S_inv"] else ["L", "S"]) ∧
+      ∀ x : List Nat, x.length = n →
+        apply L x = x.drop 1 ++ x.take 1 ∧
+        apply S x = x.take 1 ++ (x.drop 2).take (n - 2) ++ [x.getD 1 0] := by
+  exact Cv.Families.lsl_cycles_structure n b d h
+example : ∃ d, permFamily "lsl_cycles" [4] [false] = some d ∧ d.gens = [[1, 2, 3, 0], [0, 2, 3, 1]] ∧
+    d.names = ["L", "S"] ∧
+    d.central = [0, 1, 2, 3] ∧ d.name = "lsl_cycles-4" :=
+  ⟨_, rfl, by decide, by decide, by decide, by decide⟩
+
+/-- inverse-closed exactly when `add_inverses` -/
+theorem lsl_cycles_inverse_closed (n : Nat) (b : Bool) (d : PermDef)
+    (h : permFamily "lsl_cycles" [n] [b] = some d) : d.inverseClosed = b := by
+  exact Cv.Families.lsl_cycles_inverse_closed n b d h
+example : (permFamily "lsl_cycles" [4] [false]).isSome = true := by decide
+
+theorem lsl_cycles_defined_iff (n : Nat) (b : Bool) :
+    (permFamily "lsl_cycles" [n] [b]).isSome ↔ 3 ≤ n := by
+  exact Cv.Families.lsl_cycles_defined_iff n b
+example : (permFamily "lsl_cycles" [4] [false]).isSome = true ∧ (permFamily "lsl_cycles" [2] [true]).isSome = false := by decide
+
+theorem rapaport_m2_valid (n : Nat) (d : PermDef) (h : permFamily "rapaport_m2" [n] = some d) :
+    (∀ p ∈ d.gens, IsPermOf n p) ∧ d.central = List.range n ∧ d.names.length = d.gens.length := by
+  exact Cv.Families.rapaport_m2_valid n d h
+example : (permFamily "rapaport_m2" [5]).isSome = true := by decide
+
+theorem rapaport_m2_count (n : Nat) (d : PermDef) (h : permFamily "rapaport_m2" [n] = some d) :
+    d.gens.length = 3 := by
+  exact Cv.Families.rapaport_m2_count n d h
+example : (permFamily "rapaport_m2" [5]).isSome = true := by decide
+
+/-- `(0,1)`, the product `(0 1)(2 3)…` of all even adjacent transpositions, the product `(1 2)(3 4)…`
+of all odd ones -/
+theorem rapaport_m2_structure (n : Nat) (d : PermDef) (h : permFamily "rapaport_m2" [n] = some d) :
+    ∃ g1 g2 g3, d.gens = [g1, g2, g3] ∧ d.names = ["(0,1)", "EvenDisjTrans", "OddDisjTrans"] ∧
+      transposition n 0 1 = some g1 ∧
+      (∀ t, 2 * t + 1 < n → g2.getD (2 * t) 0 = 2 * t + 1 ∧ g2.getD (2 * t + 1) 0 = 2 * t) ∧
+      (n % 2 = 1 → g2.getD (n - 1) 0 = n - 1) ∧
+      (∀ t, 2 * t + 2 < n → g3.getD (2 * t + 1) 0 = 2 * t + 2 ∧ g3.getD (2 * t + 2) 0 = 2 * t + 1) ∧
+      g3.getD 0 0 = 0 ∧ (n % 2 = 0 → g3.getD (n - 1) 0 = n - 1) := by
+  exact Cv.Families.rapaport_m2_structure n d h
+example : ∃ d, permFamily "rapaport_m2" [5] = some d ∧ d.gens = [[1, 0, 2, 3, 4], [1, 0, 3, 2, 4], [0, 2, 1, 4, 3]] ∧
+    d.names = ["(0,1)", "EvenDisjTrans", "OddDisjTrans"] ∧
+    d.central = [0, 1, 2, 3, 4] ∧ d.name = "rapaport_m2-5" :=
+  ⟨_, rfl, by decide, by decide, by decide, by decide⟩
+
+theorem rapaport_m2_inverse_closed (n : Nat) (d : PermDef)
+    (h : permFamily "rapaport_m2" [n] = some d) : d.inverseClosed = true := by
+  exact Cv.Families.rapaport_m2_inverse_closed n d h
+example : (permFamily "rapaport_m2" [5]).isSome = true := by decide
+
+theorem rapaport_m2_defined_iff (n : Nat) : (permFamily "rapaport_m2" [n]).isSome ↔ 2 ≤ n := by
+  exact Cv.Families.rapaport_m2_defined_iff n
+example : (permFamily "rapaport_m2" [5]).isSome = true ∧ (permFamily "rapaport_m2" [1]).isSome = false := by decide
+
+theorem rapaport_m1_valid (n : Nat) (d : PermDef) (h : permFamily "rapaport_m1" [n] = some d) :
+    (∀ p ∈ d.gens, IsPermOf n p) ∧ d.central = List.range n ∧ d.names.length = d.gens.length := by
+  exact Cv.Families.rapaport_m1_valid n d h
+example : (permFamily "rapaport_m1" [5]).isSome = true := by decide
+
+theorem rapaport_m1_count (n : Nat) (d : PermDef) (h : permFamily "rapaport_m1" [n] = some d) :
+    d.gens.length = n - 1 := by
+  exact Cv.Families.rapaport_m1_count n d h
+example : (permFamily "rapaport_m1" [5]).isSome = true := by decide
+
+/-- generators `M1_0_m = (0 1)(2 3)…(2m-2 2m-1)`, `m = 1..n/2`, followed by
+`M1_1_m = (1 2)(3 4)…(2m-1 2m)`, `m = 1..(n-1)/2` -/
+theorem rapaport_m1_structure (n : Nat) (d : PermDef) (h : permFamily "rapaport_m1" [n] = some d) :
+    (∀ m, 1 ≤ m → 2 * m ≤ n → ∃ g, d.gens[m - 1]? = some g ∧
+      d.names[m - 1]? = some ("M1_0_" ++ toString m) ∧
+      (∀ t, t < m → g.getD (2 * t) 0 = 2 * t + 1 ∧ g.getD (2 * t + 1) 0 = 2 * t) ∧
+      (∀ p, 2 * m ≤ p → p < n → g.getD p 0 = p)) ∧
+    (∀ m, 1 ≤ m → 2 * m + 1 ≤ n → ∃ g, d.gens[n / 2 + (m - 1)]? = some g ∧
+      d.names[n / 2 + (m - 1)]? = some ("M1_1_" ++ toString m) ∧
+      (∀ t, t < m → g.getD (2 * t + 1) 0 = 2 * t + 2 ∧ g.getD (2 * t + 2) 0 = 2 * t + 1) ∧
+      g.getD 0 0 = 0 ∧ (∀ p, 2 * m < p → p < n → g.getD p 0 = p)) := by
+  exact Cv.Families.rapaport_m1_structure n d h
+example : ∃ d, permFamily "rapaport_m1" [5] = some d ∧ d.gens = [[1, 0, 2, 3, 4], [1, 0, 3, 2, 4], [0, 2, 1, 3, 4], [0, 2, 1, 4, 3]] ∧
+    d.names = ["M1_0_1", "M1_0_2", "M1_1_1", "M1_1_2"] ∧
+    d.central = [0, 1, 2, 3, 4] ∧ d.name = "rapaport_m1-5" :=
+  ⟨_, rfl, by decide, by decide, by decide, by decide⟩
+
+theorem rapaport_m1_inverse_closed (n : Nat) (d : PermDef)
+    (h : permFamily "rapaport_m1" [n] = some d) : d.inverseClosed = true := by
+  exact Cv.Families.rapaport_m1_inverse_closed n d h
+example : (permFamily "rapaport_m1" [5]).isSome = true := by decide
+
+/-- no range is documented; the library returns a definition exactly for `n ≥ 2` (for `n ≤ 1` the
+generator list is empty and `CayleyGraphDef.create` raises) -/
+theorem rapaport_m1_defined_iff (n : Nat) : (permFamily "rapaport_m1" [n]).isSome ↔ 2 ≤ n := by
+  exact Cv.Families.rapaport_m1_defined_iff n
+example : (permFamily "rapaport_m1" [5]).isSome = true ∧ (permFamily "rapaport_m1" [1]).isSome = false := by decide
+
+theorem larx_valid (n : Nat) (d : PermDef) (h : permFamily "larx" [n] = some d) :
+    (∀ p ∈ d.gens, IsPermOf n p) ∧ d.central = List.range n ∧ d.names.length = d.gens.length := by
+  exact Cv.Families.larx_valid n d h
+example : (permFamily "larx" [5]).isSome = true := by decide
+
+theorem larx_count (n : Nat) (d : PermDef) (h : permFamily "larx" [n] = some d) :
+    d.gens.length = 2 := by
+  exact Cv.Families.larx_count n d h
+example : (permFamily "larx" [5]).isSome = true := by decide
+
+/-- the transposition `(0 1)` and the cycle `(1 2 … n-1)`; the generator names are the one-line
+notations `"(1 0 2 …)"`, `"(0 2 3 … 1)"` -/
+theorem larx_structure (n : Nat) (d : PermDef) (h : permFamily "larx" [n] = some d) :
+    d.gens = [[1, 0] ++ List.range' 2 (n - 2), [0] ++ List.range' 2 (n - 2) ++ [1]] ∧
+    d.names = d.gens.map (fun g => "(" ++ " ".intercalate (g.map toString) ++ ")") ∧
+    transposition n 0 1 = some ([1, 0] ++ List.range' 2 (n - 2)) ∧
+    fromCycles n [(List.range' 1 (n - 1)).map Int.ofNat, [0]] =
+      some ([0] ++ List.range' 2 (n - 2) ++ [1]) := by
+  exact Cv.Families.larx_structure n d h
+example : ∃ d, permFamily "larx" [5] = some d ∧ d.gens = [[1, 0, 2, 3, 4], [0, 2, 3, 4, 1]] ∧
+    d.names = ["(1 0 2 3 4)", "(0 2 3 4 1)"] ∧
+    d.central = [0, 1, 2, 3, 4] ∧ d.name = "larx-5" :=
+  ⟨_, rfl, by decide, by decide, by decide, by decide⟩
+
+/-- inverse-closed exactly for `n ≤ 3` (for `n ≥ 4` the cycle `(1 2 … n-1)` is longer than 2) -/
+theorem larx_inverse_closed (n : Nat) (d : PermDef) (h : permFamily "larx" [n] = some d) :
+    d.inverseClosed = decide (n ≤ 3) := by
+  exact Cv.Families.larx_inverse_closed n d h
+example : (permFamily "larx" [5]).isSome = true := by decide
+
+theorem larx_defined_iff (n : Nat) : (permFamily "larx" [n]).isSome ↔ 2 ≤ n := by
+  exact Cv.Families.larx_defined_iff n
+example : (permFamily "larx" [5]).isSome = true ∧ (permFamily "larx" [1]).isSome = false := by decide
+
+theorem three_cycles_valid (n : Nat) (d : PermDef) (h : permFamily "three_cycles" [n] = some d) :
+    (∀ p ∈ d.gens, IsPermOf n p) ∧ d.central = List.range n ∧ d.names.length = d.gens.length := by
+  exact Cv.Families.three_cycles_valid n d h
+example : (permFamily "three_cycles" [4]).isSome = true := by decide
+
+/-- the generators are the 3-cycles `(a b c)` with `a < b`, `a < c`, `b ≠ c` (lexicographic order),
+named `"(a b c)"` -/
+theorem three_cycles_structure (n : Nat) (d : PermDef) (h : permFamily "three_cycles" [n] = some d) :
+    d.gens.map some = (triplesMinFirst n).map
+      (fun x => fromCycles n [[x.1, x.2.1, x.2.2].map Int.ofNat]) ∧
+    d.names = (triplesMinFirst n).map
+      (fun x => "(" ++ toString x.1 ++ " " ++ toString x.2.1 ++ " " ++ toString x.2.2 ++ ")") ∧
+    ∀ a b c, (a, b, c) ∈ triplesMinFirst n ↔ a < b ∧ a < c ∧ b ≠ c ∧ b < n ∧ c < n := by
+  exact Cv.Families.three_cycles_structure n d h
+example : ∃ d, permFamily "three_cycles" [4] = some d ∧ d.gens = [[1, 2, 0, 3], [1, 3, 2, 0], [2, 0, 1, 3], [2, 1, 3, 0], [3, 0, 2, 1], [3, 1, 0, 2], [0, 2, 3, 1], [0, 3, 1, 2]] ∧
+    d.names = ["(0 1 2)", "(0 1 3)", "(0 2 1)", "(0 2 3)", "(0 3 1)", "(0 3 2)", "(1 2 3)", "(1 3 2)"] ∧
+    d.central = [0, 1, 2, 3] ∧ d.name = "three_cycles-4" :=
+  ⟨_, rfl, by decide, by decide, by decide, by decide⟩
+
+theorem three_cycles_inverse_closed (n : Nat) (d : PermDef)
+    (h : permFamily "three_cycles" [n] = some d) : d.inverseClosed = true := by
+  exact Cv.Families.three_cycles_inverse_closed n d h
+example : (permFamily "three_cycles" [4]).isSome = true := by decide
+
+theorem three_cycles_defined_iff (n : Nat) : (permFamily "three_cycles" [n]).isSome ↔ 3 ≤ n := by
+  exact Cv.Families.three_cycles_defined_iff n
+example : (permFamily "three_cycles" [4]).isSome = true ∧ (permFamily "three_cycles" [2]).isSome = false := by decide
+
+theorem three_cycles_0ij_valid (n : Nat) (d : PermDef)
+    (h : permFamily "three_cycles_0ij" [n] = some d) :
+    (∀ p ∈ d.gens, IsPermOf n p) ∧ d.central = List.range n ∧ d.names.length = d.gens.length := by
+  exact Cv.Families.three_cycles_0ij_valid n d h
+example : (permFamily "three_cycles_0ij" [4]).isSome = true := by decide
+
+/-- the generators are the 3-cycles `(0 i j)`, `1 ≤ i, j < n`, `i ≠ j` (lexicographic order) -/
+theorem three_cycles_0ij_structure (n : Nat) (d : PermDef)
+    (h : permFamily "three_cycles_0ij" [n] = some d) :
+    d.gens.map some = (pairsNe1 n).map (fun x => fromCycles n [[0, x.1, x.2].map Int.ofNat]) ∧
+    d.names = (pairsNe1 n).map (fun x => "(0 " ++ toString x.1 ++ " " ++ toString x.2 ++ ")") ∧
+    ∀ i j, (i, j) ∈ pairsNe1 n ↔ 1 ≤ i ∧ i < n ∧ 1 ≤ j ∧ j < n ∧ i ≠ j := by
+  exact Cv.Families.three_cycles_0ij_structure n d h
+example : ∃ d, permFamily "three_cycles_0ij" [4] = some d ∧ d.gens = [[1, 2, 0, 3], [1, 3, 2, 0], [2, 0, 1, 3], [2, 1, 3, 0], [3, 0, 2, 1], [3, 1, 0, 2]] ∧
+    d.names = ["(0 1 2)", "(0 1 3)", "(0 2 1)", "(0 2 3)", "(0 3 1)", "(0 3 2)"] ∧
+    d.central = [0, 1, 2, 3] ∧ d.name = "three_cycles_0ij-4" :=
+  ⟨_, rfl, by decide, by decide, by decide, by decide⟩
+
+theorem three_cycles_0ij_inverse_closed (n : Nat) (d : PermDef)
+    (h : permFamily "three_cycles_0ij" [n] = some d) : d.inverseClosed = true := by
+  exact Cv.Families.three_cycles_0ij_inverse_closed n d h
+example : (permFamily "three_cycles_0ij" [4]).isSome = true := by decide
+
+/-- the docstring says `n ≥ 3`; there is no assertion, but for `n ≤ 2` the generator list is empty and
+`CayleyGraphDef.create` raises -/
+theorem three_cycles_0ij_defined_iff (n : Nat) :
+    (permFamily "three_cycles_0ij" [n]).isSome ↔ 3 ≤ n := by
+  exact Cv.Families.three_cycles_0ij_defined_iff n
+example : (permFamily "three_cycles_0ij" [4]).isSome = true ∧ (permFamily "three_cycles_0ij" [2]).isSome = false := by decide
+
+theorem three_cycles_01i_valid (n : Nat) (b : Bool) (d : PermDef)
+    (h : permFamily "three_cycles_01i" [n] [b] = some d) :
+    (∀ p ∈ d.gens, IsPermOf n p) ∧ d.central = List.range n ∧ d.names.length = d.gens.length := by
+  exact Cv.Families.three_cycles_01i_valid n b d h
+example : (permFamily "three_cycles_01i" [5] [false]).isSome = true := by decide
+
+theorem three_cycles_01i_count (n : Nat) (b : Bool) (d : PermDef)
+    (h : permFamily "three_cycles_01i" [n] [b] = some d) :
+    d.gens.length = if b then 2 * (n - 2) else n - 2 := by
+  exact Cv.Families.three_cycles_01i_count n b d h
+example : (permFamily "three_cycles_01i" [5] [false]).isSome = true := by decide
+
+/-- the generators are the 3-cycles `(0 1 i)`, `i = 2..n-1`, each followed by its inverse `(1 0 i)`
+when `add_inverses` -/
+theorem three_cycles_01i_structure (n : Nat) (b : Bool) (d : PermDef)
+    (h : permFamily "three_cycles_01i" [n] [b] = some d) :
+    (∀ i, 2 ≤ i → i < n →
+      fromCycles n [[0, 1, i].map Int.ofNat] = some (oneLine n (cyc3Fn 0 1 i)) ∧
+      inverse (oneLine n (cyc3Fn 0 1 i)) = oneLine n (cyc3Fn 1 0 i) ∧
+      fromCycles n [[1, 0, i].map Int.ofNat] = some (oneLine n (cyc3Fn 1 0 i))) ∧
+    d.gens = (if b then
+        (List.range' 2 (n - 2)).flatMap fun i => [oneLine n (cyc3Fn 0 1 i), oneLine n (cyc3Fn 1 0 i)]
+      else (List.range' 2 (n - 2)).map fun i => oneLine n (cyc3Fn 0 1 i)) ∧
+    d.names = (if b then
+        (List.range' 2 (n - 2)).flatMap fun i =>
+          ["(0 1 " ++ toString i ++ ")", "(1 0 " ++ toString i ++ ")"]
+      else (List.range' 2 (n - 2)).map fun i => "(0 1 " ++ toString i ++ ")") ∧
+    d.name = "three_cycles_01i-" ++ toString n ++ (if b then "-ic" else "") := by
+  exact Cv.Families.three_cycles_01i_structure n b d h
+example : ∃ d, permFamily "three_cycles_01i" [5] [false] = some d ∧ d.gens = [[1, 2, 0, 3, 4], [1, 3, 2, 0, 4], [1, 4, 2, 3, 0]] ∧
+    d.names = ["(0 1 2)", "(0 1 3)", "(0 1 4)"] ∧
+    d.central = [0, 1, 2, 3, 4] ∧ d.name = "three_cycles_01i-5" :=
+  ⟨_, rfl, by decide, by decide, by decide, by decide⟩
+
+/-- inverse-closed exactly when `add_inverses` -/
+theorem three_cycles_01i_inverse_closed (n : Nat) (b : Bool) (d : PermDef)
+    (h : permFamily "three_cycles_01i" [n] [b] = some d) : d.inverseClosed = b := by
+  exact Cv.Families.three_cycles_01i_inverse_closed n b d h
+example : (permFamily "three_cycles_01i" [5] [false]).isSome = true := by decide
+
+theorem three_cycles_01i_defined_iff (n : Nat) (b : Bool) :
+    (permFamily "three_cycles_01i" [n] [b]).isSome ↔ 3 ≤ n := by
+  exact Cv.Families.three_cycles_01i_defined_iff n b
+example : (permFamily "three_cycles_01i" [5] [false]).isSome = true ∧ (permFamily "three_cycles_01i" [2] [true]).isSome = false := by decide
+
+theorem koltsov3_valid (n t k d : Nat) (D : PermDef)
+    (h : permFamily "koltsov3" [n, t, k, d] = some D) :
+    (∀ p ∈ D.gens, IsPermOf n p) ∧ D.central = List.range n ∧ D.names.length = D.gens.length := by
+  exact Cv.Families.koltsov3_valid n t k d D h
+example : (permFamily "koltsov3" [6, 2, 1, 1]).isSome = true := by decide
+
+theorem koltsov3_count (n t k d : Nat) (D : PermDef)
+    (h : permFamily "koltsov3" [n, t, k, d] = some D) : D.gens.length = 3 := by
+  exact Cv.Families.koltsov3_count n t k d D h
+example : (permFamily "koltsov3" [6, 2, 1, 1]).isSome = true := by decide
+
+/-- I = `(0 1)(2 3)…`, K = `(1 2)(3 4)…`, S = `(k, k+d)` for type 1 (the identity when `d = 0`),
+`(k, k+3)(k+1, k+2)` for type 2 -/
+theorem koltsov3_structure (n t k d : Nat) (D : PermDef)
+    (h : permFamily "koltsov3" [n, t, k, d] = some D) :
+    ∃ gI gK gS, D.gens = [gI, gK, gS] ∧ D.names = ["I", "K", "S"] ∧
+      (∀ q, 2 * q + 1 < n → gI.getD (2 * q) 0 = 2 * q + 1 ∧ gI.getD (2 * q + 1) 0 = 2 * q) ∧
+      (n % 2 = 1 → gI.getD (n - 1) 0 = n - 1) ∧
+      (∀ q, 2 * q + 2 < n → gK.getD (2 * q + 1) 0 = 2 * q + 2 ∧ gK.getD (2 * q + 2) 0 = 2 * q + 1) ∧
+      gK.getD 0 0 = 0 ∧ (n % 2 = 0 → gK.getD (n - 1) 0 = n - 1) ∧
+      (t = 1 → d ≠ 0 → transposition n k (k + d) = some gS) ∧
+      (t = 1 → d = 0 → gS = List.range n) ∧
+      (t = 2 → fromCycles n [[k, k + 3].map Int.ofNat, [k + 1, k + 2].map Int.ofNat] = some gS) := by
+  exact Cv.Families.koltsov3_structure n t k d D h
+example : ∃ d, permFamily "koltsov3" [6, 2, 1, 1] = some d ∧ d.gens = [[1, 0, 3, 2, 5, 4], [0, 2, 1, 4, 3, 5], [0, 4, 3, 2, 1, 5]] ∧
+    d.names = ["I", "K", "S"] ∧
+    d.central = [0, 1, 2, 3, 4, 5] ∧ d.name = "koltsov3-n6-k1" :=
+  ⟨_, rfl, by decide, by decide, by decide, by decide⟩
+
+theorem koltsov3_inverse_closed (n t k d : Nat) (D : PermDef)
+    (h : permFamily "koltsov3" [n, t, k, d] = some D) : D.inverseClosed = true := by
+  exact Cv.Families.koltsov3_inverse_closed n t k d D h
+example : (permFamily "koltsov3" [6, 2, 1, 1]).isSome = true := by decide
+
+theorem koltsov3_defined_iff (n t k d : Nat) :
+    (permFamily "koltsov3" [n, t, k, d]).isSome ↔
+      k < n ∧ ((t = 1 ∧ k + d < n) ∨ (t = 2 ∧ k + 3 < n)) := by
+  exact Cv.Families.koltsov3_defined_iff n t k d
+example : (permFamily "koltsov3" [6, 2, 1, 1]).isSome = true ∧ (permFamily "koltsov3" [4, 2, 1, 1]).isSome = false := by decide
+
+theorem sheveleva2_valid (n k : Nat) (d : PermDef) (h : permFamily "sheveleva2" [n, k] = some d) :
+    (∀ p ∈ d.gens, IsPermOf n p) ∧ d.central = List.range n ∧ d.names.length = d.gens.length := by
+  exact Cv.Families.sheveleva2_valid n k d h
+example : (permFamily "sheveleva2" [6, 2]).isSome = true := by decide
+
+theorem sheveleva2_count (n k : Nat) (d : PermDef) (h : permFamily "sheveleva2" [n, k] = some d) :
+    d.gens.length = 2 := by
+  exact Cv.Families.sheveleva2_count n k d h
+example : (permFamily "sheveleva2" [6, 2]).isSome = true := by decide
+
+/-- A is an involution: the adjacent transpositions `(q, q+1)`, `q ≡ k (mod 2)`, except that `(k k+1)`
+and `(k+2 k+3)` are replaced by `(k+1 k+3)` (or dropped when `k+3 = n`);
+S consists of the 4-cycle `(k-1 k k+1 k+2)` and the adjacent transpositions `(q, q+1)`,
+`q ≡ k-1 (mod 2)`, outside it -/
+theorem sheveleva2_structure (n k : Nat) (d : PermDef)
+    (h : permFamily "sheveleva2" [n, k] = some d) :
+    ∃ gA gS, d.gens = [gA, gS] ∧ d.names = ["A", "S"] ∧
+      (∀ p, p < n → gA.getD (gA.getD p 0) 0 = p) ∧
+      gA.getD k 0 = k ∧ gA.getD (k + 2) 0 = k + 2 ∧
+      (k + 3 < n → gA.getD (k + 1) 0 = k + 3 ∧ gA.getD (k + 3) 0 = k + 1) ∧
+      (k + 3 = n → gA.getD (k + 1) 0 = k + 1) ∧
+      (∀ q, q % 2 = k % 2 → q + 1 < n → q ≠ k → q ≠ k + 2 →
+        gA.getD q 0 = q + 1 ∧ gA.getD (q + 1) 0 = q) ∧
+      gS.getD (k - 1) 0 = k ∧ gS.getD k 0 = k + 1 ∧ gS.getD (k + 1) 0 = k + 2 ∧
+      gS.getD (k + 2) 0 = k - 1 ∧
+      (∀ q, q % 2 = (k + 1) % 2 → q + 1 < n → q + 1 ≠ k → q ≠ k + 1 →
+        gS.getD q 0 = q + 1 ∧ gS.getD (q + 1) 0 = q) := by
+  exact Cv.Families.sheveleva2_structure n k d h
+example : ∃ d, permFamily "sheveleva2" [6, 2] = some d ∧ d.gens = [[1, 0, 2, 5, 4, 3], [0, 2, 3, 4, 1, 5]] ∧
+    d.names = ["A", "S"] ∧
+    d.central = [0, 1, 2, 3, 4, 5] ∧ d.name = "sheveleva2-n6-k2" :=
+  ⟨_, rfl, by decide, by decide, by decide, by decide⟩
+
+/-- never inverse-closed: the inverse of S (which contains a 4-cycle) is neither A nor S -/
+theorem sheveleva2_inverse_closed (n k : Nat) (d : PermDef)
+    (h : permFamily "sheveleva2" [n, k] = some d) : d.inverseClosed = false := by
+  exact Cv.Families.sheveleva2_inverse_closed n k d h
+example : (permFamily "sheveleva2" [6, 2]).isSome = true := by decide
+
+theorem sheveleva2_defined_iff (n k : Nat) :
+    (permFamily "sheveleva2" [n, k]).isSome ↔ 1 ≤ k ∧ k + 3 ≤ n := by
+  exact Cv.Families.sheveleva2_defined_iff n k
+example : (permFamily "sheveleva2" [6, 2]).isSome = true ∧ (permFamily "sheveleva2" [4, 2]).isSome = false := by decide
+
+theorem increasing_k_cycles_valid (n k : Nat) (d : PermDef)
+    (h : permFamily "increasing_k_cycles" [n, k] = some d) :
+    (∀ p ∈ d.gens, IsPermOf n p) ∧ d.central = List.range n ∧ d.names.length = d.gens.length := by
+  exact Cv.Families.increasing_k_cycles_valid n k d h
+example : (permFamily "increasing_k_cycles" [5, 3]).isSome = true := by decide
+
+/-- `C(n, k)` generators (`choose` = Pascal's rule) -/
+theorem increasing_k_cycles_count (n k : Nat) (d : PermDef)
+    (h : permFamily "increasing_k_cycles" [n, k] = some d) : d.gens.length = choose n k := by
+  exact Cv.Families.increasing_k_cycles_count n k d h
+example : (permFamily "increasing_k_cycles" [5, 3]).isSome = true := by decide
+
+/-- the generators are the cycles `(c₁ c₂ … c_k)` of all increasing `k`-tuples `c₁ < … < c_k < n`
+(in the lexicographic order of `itertools.combinations`), named `"(c₁,c₂,…,c_k)"` -/
+theorem increasing_k_cycles_structure (n k : Nat) (d : PermDef)
+    (h : permFamily "increasing_k_cycles" [n, k] = some d) :
+    d.gens.map some =
+      (combinations (List.range n) k).map (fun c => fromCycles n [c.map Int.ofNat]) ∧
+    d.names = (combinations (List.range n) k).map
+      (fun c => "(" ++ ",".intercalate (c.map toString) ++ ")") ∧
+    (∀ c, c ∈ combinations (List.range n) k ↔
+      c.Pairwise (· < ·) ∧ (∀ v ∈ c, v < n) ∧ c.length = k) ∧
+    (combinations (List.range n) k).Nodup := by
+  exact Cv.Families.increasing_k_cycles_structure n k d h
+example : ∃ d, permFamily "increasing_k_cycles" [5, 3] = some d ∧ d.gens = [[1, 2, 0, 3, 4], [1, 3, 2, 0, 4], [1, 4, 2, 3, 0], [2, 1, 3, 0, 4], [2, 1, 4, 3, 0], [3, 1, 2, 4, 0], [0, 2, 3, 1, 4], [0, 2, 4, 3, 1], [0, 3, 2, 4, 1], [0, 1, 3, 4, 2]] ∧
+    d.names = ["(0,1,2)", "(0,1,3)", "(0,1,4)", "(0,2,3)", "(0,2,4)", "(0,3,4)", "(1,2,3)", "(1,2,4)", "(1,3,4)", "(2,3,4)"] ∧
+    d.central = [0, 1, 2, 3, 4] ∧ d.name = "increasing_k_cycles-5-3" :=
+  ⟨_, rfl, by decide, by decide, by decide, by decide⟩
+
+theorem increasing_k_cycles_defined_iff (n k : Nat) :
+    (permFamily "increasing_k_cycles" [n, k]).isSome ↔ 1 ≤ n ∧ 1 ≤ k ∧ k ≤ n := by
+  exact Cv.Families.increasing_k_cycles_defined_iff n k
+example : (permFamily "increasing_k_cycles" [5, 3]).isSome = true ∧ (permFamily "increasing_k_cycles" [3, 4]).isSome = false := by decide
+
+/-- inverse-closed exactly for `k ≤ 2` -/
+theorem increasing_k_cycles_inverse_closed (n k : Nat) (d : PermDef)
+    (h : permFamily "increasing_k_cycles" [n, k] = some d) : d.inverseClosed = decide (k ≤ 2) := by
+  exact Cv.Families.increasing_k_cycles_inverse_closed n k d h
+example : (permFamily "increasing_k_cycles" [5, 3]).isSome = true := by decide
+
+theorem derangements_valid (n : Nat) (d : PermDef) (h : permFamily "derangements" [n] = some d) :
+    (∀ p ∈ d.gens, IsPermOf n p) ∧ d.central = List.range n ∧ d.names.length = d.gens.length := by
+  exact Cv.Families.derangements_valid n d h
+example : (permFamily "derangements" [4]).isSome = true := by decide
+
+/-- the generators are exactly the permutations of `0..n-1` without fixed points, each once, in the
+order of `itertools.permutations(range(n))` (`allPerms n`); the generator that is the `r`-th
+permutation of that enumeration is named `D<r>` -/
+theorem derangements_structure (n : Nat) (d : PermDef) (h : permFamily "derangements" [n] = some d) :
+    (∀ p, p ∈ d.gens ↔ IsPermOf n p ∧ ∀ i, i < n → p.getD i 0 ≠ i) ∧
+    d.gens.Nodup ∧ d.gens.Sublist (allPerms n) ∧
+    (∀ (t : Nat) (p : List Nat) (nm : String), d.gens[t]? = some p → d.names[t]? = some nm →
+      ∃ r : Nat, (allPerms n)[r]? = some p ∧ nm = "D" ++ toString r) ∧
+    (∀ p, p ∈ allPerms n ↔ IsPermOf n p) := by
+  exact Cv.Families.derangements_structure n d h
+example : ∃ d, permFamily "derangements" [4] = some d ∧ d.gens = [[1, 0, 3, 2], [1, 2, 3, 0], [1, 3, 0, 2], [2, 0, 3, 1], [2, 3, 0, 1], [2, 3, 1, 0], [3, 0, 1, 2], [3, 2, 0, 1], [3, 2, 1, 0]] ∧
+    d.names = ["D7", "D9", "D10", "D13", "D16", "D17", "D18", "D22", "D23"] ∧
+    d.central = [0, 1, 2, 3] ∧ d.name = "derangements-4" :=
+  ⟨_, rfl, by decide, by decide, by decide, by decide⟩
+
+/-- the inverse of a derangement is a derangement -/
+theorem derangements_inverse_closed (n : Nat) (d : PermDef)
+    (h : permFamily "derangements" [n] = some d) : d.inverseClosed = true := by
+  exact Cv.Families.derangements_inverse_closed n d h
+example : (permFamily "derangements" [4]).isSome = true := by decide
+
+theorem derangements_defined_iff (n : Nat) : (permFamily "derangements" [n]).isSome ↔ 2 ≤ n := by
+  exact Cv.Families.derangements_defined_iff n
+example : (permFamily "derangements" [4]).isSome = true ∧ (permFamily "derangements" [1]).isSome = false := by decide
+
+theorem involutive_derangements_valid (n : Nat) (d : PermDef)
+    (h : permFamily "involutive_derangements" [n] = some d) :
+    (∀ p ∈ d.gens, IsPermOf n p) ∧ d.central = List.range n ∧ d.names.length = d.gens.length := by
+  exact Cv.Families.involutive_derangements_valid n d h
+example : (permFamily "involutive_derangements" [4]).isSome = true := by decide
+
+/-- the generators are exactly the involutions of `0..n-1` without fixed points, each once, in the
+order of `itertools.permutations(range(n))`, named `ID1, ID2, …` -/
+theorem involutive_derangements_structure (n : Nat) (d : PermDef)
+    (h : permFamily "involutive_derangements" [n] = some d) :
+    (∀ p, p ∈ d.gens ↔
+      IsPermOf n p ∧ (∀ i, i < n → p.getD i 0 ≠ i) ∧ ∀ i, i < n → p.getD (p.getD i 0) 0 = i) ∧
+    d.gens.Nodup ∧ d.gens.Sublist (allPerms n) ∧
+    (∀ t : Nat, t < d.gens.length → d.names[t]? = some ("ID" ++ toString (t + 1))) := by
+  exact Cv.Families.involutive_derangements_structure n d h
+example : ∃ d, permFamily "involutive_derangements" [4] = some d ∧ d.gens = [[1, 0, 3, 2], [2, 3, 0, 1], [3, 2, 1, 0]] ∧
+    d.names = ["ID1", "ID2", "ID3"] ∧
+    d.central = [0, 1, 2, 3] ∧ d.name = "involutive-derangements-4" :=
+  ⟨_, rfl, by decide, by decide, by decide, by decide⟩
+
+theorem involutive_derangements_inverse_closed (n : Nat) (d : PermDef)
+    (h : permFamily "involutive_derangements" [n] = some d) : d.inverseClosed = true := by
+  exact Cv.Families.involutive_derangements_inverse_closed n d h
+example : (permFamily "involutive_derangements" [4]).isSome = true := by decide
+
+theorem involutive_derangements_defined_iff (n : Nat) :
+    (permFamily "involutive_derangements" [n]).isSome ↔ 2 ≤ n ∧ n % 2 = 0 := by
+  exact Cv.Families.involutive_derangements_defined_iff n
+example : (permFamily "involutive_derangements" [4]).isSome = true ∧ (permFamily "involutive_derangements" [3]).isSome = false := by decide
+
+theorem all_cycles_valid (n : Nat) (d : PermDef) (h : permFamily "all_cycles" [n] = some d) :
+    (∀ p ∈ d.gens, IsPermOf n p) ∧ d.central = List.range n ∧ d.names.length = d.gens.length := by
+  exact Cv.Families.all_cycles_valid n d h
+example : (permFamily "all_cycles" [4]).isSome = true := by decide
+
+/-- the generators are the cycles (as built by `permutation_from_cycles`) of the list `allCyclesList n`,
+which contains exactly the cycles of length `2..n` written from their minimum; generator `t` is named
+`cycle_<t+1>` -/
+theorem all_cycles_structure (n : Nat) (d : PermDef) (h : permFamily "all_cycles" [n] = some d) :
+    d.gens.map some = (allCyclesList n).map (fun c => fromCycles n [c.map Int.ofNat]) ∧
+    (∀ c, c ∈ allCyclesList n ↔
+      c.Nodup ∧ 2 ≤ c.length ∧ (∀ v ∈ c, v < n) ∧ ∀ v ∈ c.tail, c.headD 0 < v) ∧
+    (∀ t : Nat, t < d.gens.length → d.names[t]? = some ("cycle_" ++ toString (t + 1))) := by
+  exact Cv.Families.all_cycles_structure n d h
+example : ∃ d, permFamily "all_cycles" [4] = some d ∧ d.gens = [[1, 0, 2, 3], [2, 1, 0, 3], [3, 1, 2, 0], [0, 2, 1, 3], [0, 3, 2, 1], [0, 1, 3, 2], [1, 2, 0, 3], [2, 0, 1, 3], [1, 3, 2, 0], [3, 0, 2, 1], [2, 1, 3, 0], [3, 1, 0, 2], [0, 2, 3, 1], [0, 3, 1, 2], [1, 2, 3, 0], [1, 3, 0, 2], [2, 3, 1, 0], [2, 0, 3, 1], [3, 2, 0, 1], [3, 0, 1, 2]] ∧
+    d.names = ["cycle_1", "cycle_2", "cycle_3", "cycle_4", "cycle_5", "cycle_6", "cycle_7", "cycle_8", "cycle_9", "cycle_10", "cycle_11", "cycle_12", "cycle_13", "cycle_14", "cycle_15", "cycle_16", "cycle_17", "cycle_18", "cycle_19", "cycle_20"] ∧
+    d.central = [0, 1, 2, 3] ∧ d.name = "all_cycles-4" :=
+  ⟨_, rfl, by decide, by decide, by decide, by decide⟩
+
+theorem all_cycles_defined_iff (n : Nat) : (permFamily "all_cycles" [n]).isSome ↔ 2 ≤ n := by
+  exact Cv.Families.all_cycles_defined_iff n
+example : (permFamily "all_cycles" [4]).isSome = true ∧ (permFamily "all_cycles" [1]).isSome = false := by decide
+
+/-- the inverse of a cycle is a cycle -/
+theorem all_cycles_inverse_closed (n : Nat) (d : PermDef)
+    (h : permFamily "all_cycles" [n] = some d) : d.inverseClosed = true := by
+  exact Cv.Families.all_cycles_inverse_closed n d h
+example : (permFamily "all_cycles" [4]).isSome = true := by decide
+
+/-- for ordinary constructors the heterogeneous call is the plain one -/
+theorem permFamilyP_eq (fam : String) (nats : List Nat) (flags : List Bool)
+    (hf : fam ≠ "conjugacy_classes") :
+    permFamilyP fam (nats.map Param.nat ++ flags.map Param.flag) = permFamily fam nats flags := by
+  exact Cv.Families.permFamilyP_eq fam nats flags hf
+example : (permFamilyP "lrx" [.nat 5, .nat 2] == permFamily "lrx" [5, 2]) = true ∧
+    (permFamilyP "lsl_cycles" [.nat 4, .flag false] == permFamily "lsl_cycles" [4] [false]) = true := by decide
+
+/-- `conjugacy_classes(n, {c: None …})`: every generator is a permutation of `0..n-1` whose cycle type
+is one of the requested classes (padded with fixed points) -/
+theorem conjugacy_classes_valid (n : Nat) (cls : List (List Nat)) (d : PermDef)
+    (h : permFamilyP "conjugacy_classes" [.nat n, .lens cls] = some d) :
+    (∀ p ∈ d.gens, IsPermOf n p ∧ ∃ c ∈ cls, cycleType p =
+      (c ++ List.replicate (n - c.sum) 1).mergeSort (fun a b => decide (a ≤ b))) ∧
+    d.central = List.range n ∧ d.names.length = d.gens.length := by
+  exact Cv.Families.conjugacy_classes_valid n cls d h
+example : ∃ d, permFamilyP "conjugacy_classes" [.nat 4, .lens [[2, 2], [3]]] = some d ∧
+    d.gens = [[1, 0, 3, 2], [2, 3, 0, 1], [3, 2, 1, 0], [0, 2, 3, 1], [0, 3, 1, 2], [1, 2, 0, 3], [2, 0, 1, 3], [1, 3, 2, 0], [3, 0, 2, 1], [2, 1, 3, 0], [3, 1, 0, 2]] ∧
+    d.names = ["(2,2)_1", "(2,2)_2", "(2,2)_3", "(3,1)_1", "(3,1)_2", "(3,1)_3", "(3,1)_4", "(3,1)_5", "(3,1)_6", "(3,1)_7", "(3,1)_8"] ∧
+    d.name = "conjugacy_class-4-2,2-3,1" := by
+  rw [permFamilyP_conj]; unfold conjugacyClasses
+  simp only [permutationsWithCycleLengths_eq]
+  exact ⟨_, rfl, by decide, by decide, by decide⟩
+
+theorem three_cycles_0ij_count (n : Nat) (d : PermDef)
+    (h : permFamily "three_cycles_0ij" [n] = some d) : d.gens.length = (n - 1) * (n - 2) := by
+  exact Cv.Families.three_cycles_0ij_count n d h
+example : (permFamily "three_cycles_0ij" [4]).isSome = true := by decide
+
+theorem three_cycles_count (n : Nat) (d : PermDef) (h : permFamily "three_cycles" [n] = some d) :
+    3 * d.gens.length = n * (n - 1) * (n - 2) := by
+  exact Cv.Families.three_cycles_count n d h
+example : (permFamily "three_cycles" [4]).isSome = true := by decide
+
+theorem transposons_count (n : Nat) (d : PermDef) (h : permFamily "transposons" [n] = some d) :
+    6 * d.gens.length = (n - 1) * n * (n + 1) := by
+  exact Cv.Families.transposons_count n d h
+example : (permFamily "transposons" [4]).isSome = true := by decide
+
+theorem block_interchange_count (n : Nat) (d : PermDef)
+    (h : permFamily "block_interchange" [n] = some d) :
+    24 * d.gens.length = (n - 1) * n * (n + 1) * (n + 2) := by
+  exact Cv.Families.block_interchange_count n d h
+example : (permFamily "block_interchange" [4]).isSome = true := by decide
+
+theorem heisenberg_defined_iff (n m : Nat) (b : Bool) :
+    (matFamily "heisenberg" [n, m] [b]).isSome ↔ 3 ≤ n ∧ (m = 0 ∨ (2 ≤ m ∧ m ≤ 2 ^ 31)) := by
+  exact Cv.Families.heisenberg_defined_iff n m b
+example : (matFamily "heisenberg" [4, 5] [true]).isSome = true ∧ (matFamily "heisenberg" [2, 5] [true]).isSome = false := by decide
+
+/-- `4(n-2)` generators with inverses, `2(n-2)` without — but also only `2(n-2)` for `modulo = 2`,
+where every generator is its own inverse and `make_inverse_closed` adds nothing (the docstring says
+`4(n-2)` whenever inverses are requested) -/
+theorem heisenberg_count (n m : Nat) (b : Bool) (d : MatDef)
+    (h : matFamily "heisenberg" [n, m] [b] = some d) :
+    d.gens.length = if b = true ∧ m ≠ 2 then 4 * (n - 2) else 2 * (n - 2) := by
+  exact Cv.Families.heisenberg_count n m b d h
+example : (matFamily "heisenberg" [4, 5] [true]).isSome = true := by decide
+
+theorem heisenberg_valid (n m : Nat) (b : Bool) (d : MatDef)
+    (h : matFamily "heisenberg" [n, m] [b] = some d) :
+    d.n = n ∧ d.modulo = m ∧
+    (∀ g ∈ d.gens, g.length = n * n ∧ (0 < m → ∀ v ∈ g, 0 ≤ v ∧ v < (m : Int))) ∧
+    d.central = matOf n 0 eyeFn ∧ d.names.length = d.gens.length := by
+  exact Cv.Families.heisenberg_valid n m b d h
+example : (matFamily "heisenberg" [4, 5] [true]).isSome = true := by decide
+
+/-- generators `x_i = I + E(0,i)`, then `y_i = I + E(i,n-1)` (`i = 1..n-2`; named `x`, `y` for `n = 3`,
+`x<i>`, `y<i>` otherwise), then — with `add_inverses` and `modulo ≠ 2` — `x_i' = I - E(0,i)` and
+`y_i' = I - E(i,n-1)`, named with a trailing `'`, and the graph name gets the suffix `-ic` -/
+theorem heisenberg_structure (n m : Nat) (b : Bool) (d : MatDef)
+    (h : matFamily "heisenberg" [n, m] [b] = some d) :
+    (∀ i, 1 ≤ i → i + 2 ≤ n →
+      d.gens[i - 1]? = some (matOf n m (elemFn 0 i 1)) ∧
+      d.gens[(n - 2) + (i - 1)]? = some (matOf n m (elemFn i (n - 1) 1)) ∧
+      d.names[i - 1]? = some (if n = 3 then "x" else "x" ++ toString i) ∧
+      d.names[(n - 2) + (i - 1)]? = some (if n = 3 then "y" else "y" ++ toString i) ∧
+      (b = true ∧ m ≠ 2 →
+        d.gens[2 * (n - 2) + (i - 1)]? = some (matOf n m (elemFn 0 i (-1))) ∧
+        d.gens[3 * (n - 2) + (i - 1)]? = some (matOf n m (elemFn i (n - 1) (-1))) ∧
+        d.names[2 * (n - 2) + (i - 1)]? = some ((if n = 3 then "x" else "x" ++ toString i) ++ "'") ∧
+        d.names[3 * (n - 2) + (i - 1)]? = some ((if n = 3 then "y" else "y" ++ toString i) ++ "'"))) ∧
+    d.name = "heisenberg-" ++ toString n ++ (if m = 0 then "" else "%" ++ toString m) ++
+      (if b = true ∧ m ≠ 2 then "-ic" else "") ∧
+    (∀ a c r s : Nat, ∀ v : Int, r < n → s < n →
+      entry n (matOf n m (elemFn a c v)) r s =
+        red m (if r = a ∧ s = c then v else if r = s then 1 else 0)) := by
+  exact Cv.Families.heisenberg_structure n m b d h
+example : ∃ d, matFamily "heisenberg" [4, 5] [true] = some d ∧ d.gens = [[1, 1, 0, 0, 0, 1, 0, 0, 0, 0, 1, 0, 0, 0, 0, 1], [1, 0, 1, 0, 0, 1, 0, 0, 0, 0, 1, 0, 0, 0, 0, 1], [1, 0, 0, 0, 0, 1, 0, 1, 0, 0, 1, 0, 0, 0, 0, 1], [1, 0, 0, 0, 0, 1, 0, 0, 0, 0, 1, 1, 0, 0, 0, 1], [1, 4, 0, 0, 0, 1, 0, 0, 0, 0, 1, 0, 0, 0, 0, 1], [1, 0, 4, 0, 0, 1, 0, 0, 0, 0, 1, 0, 0, 0, 0, 1], [1, 0, 0, 0, 0, 1, 0, 4, 0, 0, 1, 0, 0, 0, 0, 1], [1, 0, 0, 0, 0, 1, 0, 0, 0, 0, 1, 4, 0, 0, 0, 1]] ∧
+    d.names = ["x1", "x2", "y1", "y2", "x1'", "x2'", "y1'", "y2'"] ∧
+    d.central = [1, 0, 0, 0, 0, 1, 0, 0, 0, 0, 1, 0, 0, 0, 0, 1] ∧ d.name = "heisenberg-4%5-ic" :=
+  ⟨_, rfl, by decide, by decide, by decide, by decide⟩
+
+/-- with `add_inverses` the generator list is closed under inversion: generator `t + 2(n-2)` is the
+inverse of generator `t` (modulo `modulo`); for `modulo = 2` every generator is its own inverse -/
+theorem heisenberg_inverses (n m : Nat) (b : Bool) (d : MatDef)
+    (h : matFamily "heisenberg" [n, m] [b] = some d) :
+    (b = true ∧ m ≠ 2 → ∀ t, t < 2 * (n - 2) →
+      ∃ g g', d.gens[t]? = some g ∧ d.gens[t + 2 * (n - 2)]? = some g' ∧ InvMod n m g g') ∧
+    (m = 2 → ∀ g ∈ d.gens, InvMod n m g g) := by
+  exact Cv.Families.heisenberg_inverses n m b d h
+example : (matFamily "heisenberg" [4, 5] [true]).isSome = true := by decide
+
+theorem sl_fund_roots_defined_iff (n m : Nat) :
+    (matFamily "special_linear_fundamental_roots" [n, m]).isSome ↔
+      2 ≤ n ∧ (m = 0 ∨ (2 ≤ m ∧ m ≤ 2 ^ 31)) := by
+  exact Cv.Families.sl_fund_roots_defined_iff n m
+example : (matFamily "special_linear_fundamental_roots" [3, 5]).isSome = true ∧ (matFamily "special_linear_fundamental_roots" [1, 5]).isSome = false := by decide
+
+/-- `4(n-1)` generators -/
+theorem sl_fund_roots_count (n m : Nat) (d : MatDef)
+    (h : matFamily "special_linear_fundamental_roots" [n, m] = some d) :
+    d.gens.length = 4 * (n - 1) := by
+  exact Cv.Families.sl_fund_roots_count n m d h
+example : (matFamily "special_linear_fundamental_roots" [3, 5]).isSome = true := by decide
+
+theorem sl_fund_roots_valid (n m : Nat) (d : MatDef)
+    (h : matFamily "special_linear_fundamental_roots" [n, m] = some d) :
+    d.n = n ∧ d.modulo = m ∧
+    (∀ g ∈ d.gens, g.length = n * n ∧ (0 < m → ∀ v ∈ g, 0 ≤ v ∧ v < (m : Int))) ∧
+    d.central = matOf n 0 eyeFn ∧ d.names.length = d.gens.length := by
+  exact Cv.Families.sl_fund_roots_valid n m d h
+example : (matFamily "special_linear_fundamental_roots" [3, 5]).isSome = true := by decide
+
+/-- the generators are, for `k = 1..n-1` in this order: the fundamental root element
+`e_k = I + E(k-1,k)`, its inverse `e_k' = I - E(k-1,k)`, `f_k = I + E(k,k-1)` and `f_k' = I - E(k,k-1)` -/
+theorem sl_fund_roots_structure (n m : Nat) (d : MatDef)
+    (h : matFamily "special_linear_fundamental_roots" [n, m] = some d) :
+    d.gens = (List.range (n - 1)).flatMap (fun k =>
+      [matOf n m (elemFn k (k + 1) 1), matOf n m (elemFn k (k + 1) (-1)),
+       matOf n m (elemFn (k + 1) k 1), matOf n m (elemFn (k + 1) k (-1))]) ∧
+    d.names = (List.range (n - 1)).flatMap (fun k =>
+      ["e" ++ toString (k + 1), "e" ++ toString (k + 1) ++ "'",
+       "f" ++ toString (k + 1), "f" ++ toString (k + 1) ++ "'"]) ∧
+    d.name = "sl_fund_roots-" ++ toString n ++ (if m = 0 then "" else "%" ++ toString m) ∧
+    (∀ a c r s : Nat, ∀ v : Int, r < n → s < n →
+      entry n (matOf n m (elemFn a c v)) r s =
+        red m (if r = a ∧ s = c then v else if r = s then 1 else 0)) := by
+  exact Cv.Families.sl_fund_roots_structure n m d h
+example : ∃ d, matFamily "special_linear_fundamental_roots" [3, 5] = some d ∧ d.gens = [[1, 1, 0, 0, 1, 0, 0, 0, 1], [1, 4, 0, 0, 1, 0, 0, 0, 1], [1, 0, 0, 1, 1, 0, 0, 0, 1], [1, 0, 0, 4, 1, 0, 0, 0, 1], [1, 0, 0, 0, 1, 1, 0, 0, 1], [1, 0, 0, 0, 1, 4, 0, 0, 1], [1, 0, 0, 0, 1, 0, 0, 1, 1], [1, 0, 0, 0, 1, 0, 0, 4, 1]] ∧
+    d.names = ["e1", "e1'", "f1", "f1'", "e2", "e2'", "f2", "f2'"] ∧
+    d.central = [1, 0, 0, 0, 1, 0, 0, 0, 1] ∧ d.name = "sl_fund_roots-3%5" :=
+  ⟨_, rfl, by decide, by decide, by decide, by decide⟩
+
+/-- the primed generators are the inverses (modulo `modulo`) of the unprimed ones: the set is
+inverse-closed -/
+theorem sl_fund_roots_inverses (n m : Nat) (d : MatDef)
+    (_h : matFamily "special_linear_fundamental_roots" [n, m] = some d) :
+    ∀ k, k + 1 < n →
+      InvMod n m (matOf n m (elemFn k (k + 1) 1)) (matOf n m (elemFn k (k + 1) (-1))) ∧
+      InvMod n m (matOf n m (elemFn (k + 1) k 1)) (matOf n m (elemFn (k + 1) k (-1))) := by
+  exact Cv.Families.sl_fund_roots_inverses n m d _h
+example : (matFamily "special_linear_fundamental_roots" [3, 5]).isSome = true := by decide
+
+theorem sl_root_weyl_defined_iff (n m : Nat) :
+    (matFamily "special_linear_root_weyl" [n, m]).isSome ↔
+      2 ≤ n ∧ (m = 0 ∨ (2 ≤ m ∧ m ≤ 2 ^ 31)) := by
+  exact Cv.Families.sl_root_weyl_defined_iff n m
+example : (matFamily "special_linear_root_weyl" [3, 5]).isSome = true ∧ (matFamily "special_linear_root_weyl" [3, 1]).isSome = false := by decide
+
+theorem sl_root_weyl_count (n m : Nat) (d : MatDef)
+    (h : matFamily "special_linear_root_weyl" [n, m] = some d) : d.gens.length = 4 := by
+  exact Cv.Families.sl_root_weyl_count n m d h
+example : (matFamily "special_linear_root_weyl" [3, 5]).isSome = true := by decide
+
+theorem sl_root_weyl_valid (n m : Nat) (d : MatDef)
+    (h : matFamily "special_linear_root_weyl" [n, m] = some d) :
+    d.n = n ∧ d.modulo = m ∧
+    (∀ g ∈ d.gens, g.length = n * n ∧ (0 < m → ∀ v ∈ g, 0 ≤ v ∧ v < (m : Int))) ∧
+    d.central = matOf n 0 eyeFn ∧ d.names.length = d.gens.length := by
+  exact Cv.Families.sl_root_weyl_valid n m d h
+example : (matFamily "special_linear_root_weyl" [3, 5]).isSome = true := by decide
+
+/-- `e = I + E(0,1)`, `e' = I - E(0,1)`, the Weyl element `w` (ones on the superdiagonal and
+`(-1)^(n-1)` in the lower left corner) and its transpose `w'` -/
+theorem sl_root_weyl_structure (n m : Nat) (d : MatDef)
+    (h : matFamily "special_linear_root_weyl" [n, m] = some d) :
+    ∃ e e' w w', d.gens = [e, e', w, w'] ∧ d.names = ["e", "e'", "w", "w'"] ∧
+      d.name = "sl_root_weyl-" ++ toString n ++ (if m = 0 then "" else "%" ++ toString m) ∧
+      (∀ r s, r < n → s < n →
+        entry n e r s = red m (if r = 0 ∧ s = 1 then 1 else if r = s then 1 else 0) ∧
+        entry n e' r s = red m (if r = 0 ∧ s = 1 then -1 else if r = s then 1 else 0) ∧
+        entry n w r s = red m (if s = r + 1 then 1
+          else if r = n - 1 ∧ s = 0 then (if n % 2 = 1 then 1 else -1) else 0) ∧
+        entry n w' r s = entry n w s r) := by
+  exact Cv.Families.sl_root_weyl_structure n m d h
+example : ∃ d, matFamily "special_linear_root_weyl" [3, 5] = some d ∧ d.gens = [[1, 1, 0, 0, 1, 0, 0, 0, 1], [1, 4, 0, 0, 1, 0, 0, 0, 1], [0, 1, 0, 0, 0, 1, 1, 0, 0], [0, 0, 1, 1, 0, 0, 0, 1, 0]] ∧
+    d.names = ["e", "e'", "w", "w'"] ∧
+    d.central = [1, 0, 0, 0, 1, 0, 0, 0, 1] ∧ d.name = "sl_root_weyl-3%5" :=
+  ⟨_, rfl, by decide, by decide, by decide, by decide⟩
+
+/-- `e'` is the inverse of `e` and `w'` the inverse of `w` (modulo `modulo`): inverse-closed -/
+theorem sl_root_weyl_inverses (n m : Nat) (d : MatDef)
+    (h : matFamily "special_linear_root_weyl" [n, m] = some d) :
+    ∃ e e' w w', d.gens = [e, e', w, w'] ∧ InvMod n m e e' ∧ InvMod n m w w' := by
+  exact Cv.Families.sl_root_weyl_inverses n m d h
+example : (matFamily "special_linear_root_weyl" [3, 5]).isSome = true := by decide
+
+theorem lookup_lx (n : Nat) (k : Option Nat) : lookup "lx" n k = permFamily "lx" [n] := by
+  exact Cv.Families.lookup_lx n k
+example : (lookup "lx" 5 none).isSome = true := by decide
+
+theorem lookup_lrx (n : Nat) (k : Option Nat) : lookup "lrx" n k = permFamily "lrx" [n] := by
+  exact Cv.Families.lookup_lrx n k
+example : (lookup "lrx" 5 none).isSome = true := by decide
+
+theorem lookup_top_spin (n : Nat) (k : Option Nat) :
+    lookup "top_spin" n k = permFamily "top_spin" [n] := by
+  exact Cv.Families.lookup_top_spin n k
+example : (lookup "top_spin" 5 none).isSome = true := by decide
+
+theorem lookup_all_transpositions (n : Nat) (k : Option Nat) :
+    lookup "all_transpositions" n k = permFamily "all_transpositions" [n] := by
+  exact Cv.Families.lookup_all_transpositions n k
+example : (lookup "all_transpositions" 5 none).isSome = true := by decide
+
+theorem lookup_transposons (n : Nat) (k : Option Nat) :
+    lookup "transposons" n k = permFamily "transposons" [n] := by
+  exact Cv.Families.lookup_transposons n k
+example : (lookup "transposons" 5 none).isSome = true := by decide
+
+theorem lookup_block_interchange (n : Nat) (k : Option Nat) :
+    lookup "block_interchange" n k = permFamily "block_interchange" [n] := by
+  exact Cv.Families.lookup_block_interchange n k
+example : (lookup "block_interchange" 5 none).isSome = true := by decide
+
+theorem lookup_full_reversals (n : Nat) (k : Option Nat) :
+    lookup "full_reversals" n k = permFamily "full_reversals" [n] := by
+  exact Cv.Families.lookup_full_reversals n k
+example : (lookup "full_reversals" 5 none).isSome = true := by decide
+
+theorem lookup_coxeter (n : Nat) (k : Option Nat) :
+    lookup "coxeter" n k = permFamily "coxeter" [n] := by
+  exact Cv.Families.lookup_coxeter n k
+example : (lookup "coxeter" 5 none).isSome = true := by decide
+
+theorem lookup_pancake (n : Nat) (k : Option Nat) :
+    lookup "pancake" n k = permFamily "pancake" [n] := by
+  exact Cv.Families.lookup_pancake n k
+example : (lookup "pancake" 5 none).isSome = true := by decide
+
+theorem lookup_all_cycles (n : Nat) (k : Option Nat) :
+    lookup "all_cycles" n k = permFamily "all_cycles" [n] := by
+  exact Cv.Families.lookup_all_cycles n k
+example : (lookup "all_cycles" 5 none).isSome = true := by decide
+
+theorem lookup_lsl_cycles (n : Nat) (k : Option Nat) :
+    lookup "lsl_cycles" n k = permFamily "lsl_cycles" [n] := by
+  exact Cv.Families.lookup_lsl_cycles n k
+example : (lookup "lsl_cycles" 5 none).isSome = true := by decide
+
+theorem lookup_larx (n : Nat) (k : Option Nat) : lookup "larx" n k = permFamily "larx" [n] := by
+  exact Cv.Families.lookup_larx n k
+example : (lookup "larx" 5 none).isSome = true := by decide
+
+theorem lookup_01i (n : Nat) (k : Option Nat) :
+    lookup "01i" n k = permFamily "three_cycles_01i" [n] := by
+  exact Cv.Families.lookup_01i n k
+example : (lookup "01i" 5 none).isSome = true := by decide
+
+theorem lookup_increasing_k_cycles (n k : Nat) :
+    lookup "increasing_k_cycles" n (some k) = permFamily "increasing_k_cycles" [n, k] := by
+  exact Cv.Families.lookup_increasing_k_cycles n k
+example : (lookup "increasing_k_cycles" 5 (some 2)).isSome = true := by decide
+
+theorem lookup_consecutive_k_cycles (n k : Nat) :
+    lookup "consecutive_k_cycles" n (some k) = permFamily "consecutive_k_cycles" [n, k] := by
+  exact Cv.Families.lookup_consecutive_k_cycles n k
+example : (lookup "consecutive_k_cycles" 5 (some 2)).isSome = true := by decide
+
+/-- without the keyword argument `k` the library raises `KeyError` -/
+theorem lookup_k_cycles_missing_k (n : Nat) :
+    lookup "increasing_k_cycles" n none = none ∧ lookup "consecutive_k_cycles" n none = none := by
+  exact Cv.Families.lookup_k_cycles_missing_k n
+example : (lookup "increasing_k_cycles" 4 (some 2)).isSome = true := by decide
+
+theorem lookup_down_cycles (n : Nat) (k : Option Nat) :
+    lookup "down_cycles" n k = permFamily "down_cycles" [n] := by
+  exact Cv.Families.lookup_down_cycles n k
+example : (lookup "down_cycles" 5 none).isSome = true := by decide
+
+theorem lookup_prefix_cycles (n : Nat) (k : Option Nat) :
+    lookup "prefix_cycles" n k = permFamily "prefix_cycles" [n] := by
+  exact Cv.Families.lookup_prefix_cycles n k
+example : (lookup "prefix_cycles" 5 none).isSome = true := by decide
+
+/-- `prepare_graph("lx-" + s)` is `lx(int(s))` — for EVERY suffix `s`; the argument `n` is ignored -/
+theorem lookup_lx_prefix (s : String) (n : Nat) (k : Option Nat) :
+    lookup ("lx-" ++ s) n k = (pyIntNat s.toList).bind fun m => permFamily "lx" [m] := by
+  exact Cv.Families.lookup_lx_prefix s n k
+example : (lookup ("lx-" ++ " +0_5 ") 0 none == permFamily "lx" [5]) = true ∧ (permFamily "lx" [5]).isSome = true := by decide
+
+/-- `prepare_graph("lrx-" + s)` is `lrx(int(s))` -/
+theorem lookup_lrx_prefix (s : String) (n : Nat) (k : Option Nat) :
+    lookup ("lrx-" ++ s) n k = (pyIntNat s.toList).bind fun m => permFamily "lrx" [m] := by
+  exact Cv.Families.lookup_lrx_prefix s n k
+example : (lookup ("lrx-" ++ "007") 0 none == permFamily "lrx" [7]) = true ∧ (permFamily "lrx" [7]).isSome = true := by decide
+
+theorem lookup_lx_N (m n : Nat) (k : Option Nat) :
+    lookup ("lx-" ++ toString m) n k = permFamily "lx" [m] := by
+  exact Cv.Families.lookup_lx_N m n k
+example : (lookup ("lx-" ++ toString 5) 0 none == permFamily "lx" [5]) = true ∧ (permFamily "lx" [5]).isSome = true := by decide
+
+theorem lookup_lrx_N (m n : Nat) (k : Option Nat) :
+    lookup ("lrx-" ++ toString m) n k = permFamily "lrx" [m] := by
+  exact Cv.Families.lookup_lrx_N m n k
+example : (lookup ("lrx-" ++ toString 5) 0 none == permFamily "lrx" [5]) = true ∧ (permFamily "lrx" [5]).isSome = true := by decide
+
+/-- SUMMARY: looking a graph up by name returns the definition of the constructor that
+`prepare_graph` names — for every supported name, every `n`, `k`, and every suffix `s` / number `m` -/
+theorem lookup_constructor (n : Nat) (k : Option Nat) (kk m : Nat) (s : String) :
+    lookup "lx" n k = permFamily "lx" [n] ∧
+    lookup ("lx-" ++ s) n k = ((pyIntNat s.toList).bind fun m => permFamily "lx" [m]) ∧
+    lookup ("lx-" ++ toString m) n k = permFamily "lx" [m] ∧
+    lookup "lrx" n k = permFamily "lrx" [n] ∧
+    lookup ("lrx-" ++ s) n k = ((pyIntNat s.toList).bind fun m => permFamily "lrx" [m]) ∧
+    lookup ("lrx-" ++ toString m) n k = permFamily "lrx" [m] ∧
+    lookup "top_spin" n k = permFamily "top_spin" [n] ∧
+    lookup "all_transpositions" n k = permFamily "all_transpositions" [n] ∧
+    lookup "transposons" n k = permFamily "transposons" [n] ∧
+    lookup "block_interchange" n k = permFamily "block_interchange" [n] ∧
+    lookup "full_reversals" n k = permFamily "full_reversals" [n] ∧
+    lookup "coxeter" n k = permFamily "coxeter" [n] ∧
+    lookup "pancake" n k = permFamily "pancake" [n] ∧
+    lookup "all_cycles" n k = permFamily "all_cycles" [n] ∧
+    lookup "lsl_cycles" n k = permFamily "lsl_cycles" [n] ∧
+    lookup "larx" n k = permFamily "larx" [n] ∧
+    lookup "01i" n k = permFamily "three_cycles_01i" [n] ∧
+    lookup "increasing_k_cycles" n (some kk) = permFamily "increasing_k_cycles" [n, kk] ∧
+    lookup "consecutive_k_cycles" n (some kk) = permFamily "consecutive_k_cycles" [n, kk] ∧
+    lookup "down_cycles" n k = permFamily "down_cycles" [n] ∧
+    lookup "prefix_cycles" n k = permFamily "prefix_cycles" [n] := by
+  exact Cv.Families.lookup_constructor n k kk m s
+example : (lookup "pancake" 4 none == permFamily "pancake" [4]) = true ∧ (permFamily "pancake" [4]).isSome = true ∧
+    (lookup "lx-007" 0 none == permFamily "lx" [7]) = true ∧ (permFamily "lx" [7]).isSome = true := by decide
+
+theorem lookup_roundtrip_lx (n : Nat) (d : PermDef) (h : permFamily "lx" [n] = some d)
+    (n' : Nat) (k' : Option Nat) : lookup d.name n' k' = some d := by
+  exact Cv.Families.lookup_roundtrip_lx n d h n' k'
+example : (permFamily "lx" [4]).isSome = true ∧ (lookup "lx-4" 0 none == permFamily "lx" [4]) = true := by decide
+
+theorem lookup_roundtrip_lrx (n : Nat) (d : PermDef) (h : permFamily "lrx" [n] = some d)
+    (n' : Nat) (k' : Option Nat) : lookup d.name n' k' = some d := by
+  exact Cv.Families.lookup_roundtrip_lrx n d h n' k'
+example : (permFamily "lrx" [4]).isSome = true ∧ (lookup "lrx-4" 0 none == permFamily "lrx" [4]) = true := by decide
+
+theorem lookup_own_name_lrx_k (n k : Nat) (hk : k ≠ 1) (d : PermDef)
+    (h : permFamily "lrx" [n, k] = some d) (n' : Nat) (k' : Option Nat) :
+    lookup d.name n' k' = none := by
+  exact Cv.Families.lookup_own_name_lrx_k n k hk d h n' k'
+example : (permFamily "lrx" [5, 2]).map (·.name) = some "lrx-5(k=2)" ∧ lookup "lrx-5(k=2)" 0 none = none := by decide
+
+/-- every definition's own name is either empty, or `lx-<n>` / `lrx-<n>` of that very definition, or
+`lrx-<n>(k=<k>)`, or starts with a prefix that the lookup rejects; hence: whenever the own name of a
+definition is accepted by the lookup, the lookup returns that definition -/
+theorem lookup_roundtrip (fam : String) (args : List Nat) (flags : List Bool) (d : PermDef)
+    (h : permFamily fam args flags = some d) (n' : Nat) (k' : Option Nat) (d' : PermDef)
+    (h' : lookup d.name n' k' = some d') : d' = d := by
+  exact Cv.Families.lookup_roundtrip fam args flags d h n' k' d' h'
+example : (permFamily "lx" [4]).map (·.name) = some "lx-4" ∧ (lookup "lx-4" 9 none == permFamily "lx" [4]) = true ∧ (permFamily "coxeter" [4]).map (·.name) = some "coxeter-4" ∧ lookup "coxeter-4" 4 none = none := by decide
+
+/-- the own name of a definition is accepted by the lookup only if it maps back to the definition
+(which happens exactly for `lx(n)` and `lrx(n)` with `k = 1`) -/
+theorem lookup_accepts_iff (fam : String) (args : List Nat) (flags : List Bool) (d : PermDef)
+    (h : permFamily fam args flags = some d) (n' : Nat) (k' : Option Nat) :
+    (lookup d.name n' k').isSome = true ↔ lookup d.name n' k' = some d := by
+  exact Cv.Families.lookup_accepts_iff fam args flags d h n' k'
+example : (permFamily "lrx" [4]).map (·.name) = some "lrx-4" ∧ (lookup "lrx-4" 9 none).isSome = true := by decide
+
+end Cv.C15
